@@ -1,2465 +1,17 @@
-(* C11 — proofs about the model. *)
+(* C11 — proofs about the model: re-exports the parts; short proofs of statements of Properties.v. *)
 From Coq Require Import List NArith Bool Lia.
 From V.C11 Require Import Model.
+From V.C11 Require Export PBase PAlt PInv PIso PLedger PTimer PSend PLazy.
 Import ListNotations.
 Open Scope N_scope.
 
-Arguments N.add : simpl never.
-Arguments N.eqb : simpl never.
-
-(* ------------------------------------------------------------------ basics *)
-Lemma upd_same {A} (f : peer -> A) p v : upd f p v p = v.
-Proof. unfold upd. now rewrite N.eqb_refl. Qed.
-Lemma upd_other {A} (f : peer -> A) p v q : q <> p -> upd f p v q = f q.
-Proof. unfold upd. intros H. destruct (q =? p) eqn:E; auto. apply N.eqb_eq in E. contradiction. Qed.
-
-Definition is_open (x : option pstate) : bool := match x with Some (Open _) => true | _ => false end.
-
-(* the event grammar per peer: Opened only when closed, Closed only when opened, no OpenFailure
-   while opened; ValidateSubstream anywhere *)
-Fixpoint grammar (h : peer -> bool) (l : list uev) : option (peer -> bool) :=
-  match l with
-  | [] => Some h
-  | UOpened p _ :: t => if h p then None else grammar (upd h p true) t
-  | UClosed p :: t => if h p then grammar (upd h p false) t else None
-  | UFail p _ :: t => if h p then None else grammar h t
-  | UValidate _ :: t => grammar h t
-  | UNotif p :: t => if h p then grammar h t else None
-  end.
-
-Lemma grammar_app h l1 l2 :
-  grammar h (l1 ++ l2) = match grammar h l1 with Some h1 => grammar h1 l2 | None => None end.
-Proof.
-  revert h. induction l1 as [|e l1 IH]; intros h; cbn [app grammar]; auto.
-  destruct e; try destruct (h p); auto.
-Qed.
-
-(* events that neither open nor close a stream and only report failures for peers whose stream
-   is not open *)
-Definition quiet_ev (s : st) (e : uev) : Prop :=
-  match e with
-  | UFail q _ => is_open (ps s q) = false
-  | UValidate _ => True
-  | _ => False
-  end.
-
-Definition same_open (s s' : st) : Prop :=
-  forall q k, ps s' q = Some (Open k) <-> ps s q = Some (Open k).
-
-Definition quiet (s : st) (r : res) : Prop :=
-  match r with
-  | None => True
-  | Some (s', ev, _) =>
-      tasks s' = tasks s /\ lastt s' = lastt s /\ ntask s' = ntask s /\ hopen s' = hopen s /\
-      same_open s s' /\ Forall (quiet_ev s) ev
-  end.
-
-Lemma same_open_refl s : same_open s s.
-Proof. intros q k. tauto. Qed.
-
-Ltac setters :=
-  cbn [ps pend hsI hsO hopen hval conn dead nsid spend tasks ntask lastt
-       set_ps set_pend set_hsI set_hsO set_hopen set_hval set_conn set_dead set_nsid set_spend set_tasks spawn_task] in *.
-
-Ltac so_tac :=
-  let q := fresh "q" in let k := fresh "k" in let E := fresh "E" in
-  unfold same_open; intros q k; setters; unfold upd;
-  repeat match goal with
-         | |- context [q =? ?p] => destruct (q =? p) eqn:E; [apply N.eqb_eq in E; subst q|]
-         end;
-  (split; intros; first [congruence | tauto | assumption]).
-
-Ltac ev_tac :=
-  repeat constructor; cbn [quiet_ev is_open]; auto;
-  try match goal with H : ps _ ?p = _ |- is_open (ps _ ?p) = false => rewrite H; reflexivity end.
-
-Ltac quiet_tac :=
-  unfold quiet, ok, ok_ev; setters;
-  refine (conj _ (conj _ (conj _ (conj _ (conj _ _)))));
-  [reflexivity | reflexivity | reflexivity | reflexivity | so_tac | ev_tac].
-
-Lemma svc_open_ps s p s1 r : svc_open s p = (s1, r) ->
-  ps s1 = ps s /\ tasks s1 = tasks s /\ lastt s1 = lastt s /\ ntask s1 = ntask s /\ hopen s1 = hopen s.
-Proof.
-  unfold svc_open. destruct (conn s p); [destruct (dead s p)|]; intros H; inversion H; subst; setters; repeat split; auto.
-Qed.
-
-(* replace the state after svc_open by facts about its fields *)
-Ltac svc_tac s p :=
-  let s1 := fresh "s1" in let r := fresh "r" in let Hs := fresh "Hs" in
-  destruct (svc_open s p) as [s1 r] eqn:Hs; apply svc_open_ps in Hs;
-  let H1 := fresh "H1" in let H2 := fresh "H2" in let H3 := fresh "H3" in let H4 := fresh "H4" in let H5 := fresh "H5" in
-  destruct Hs as (H1 & H2 & H3 & H4 & H5);
-  destruct r; unfold quiet, ok, ok_ev; setters; rewrite ?H1, ?H2, ?H3, ?H4, ?H5;
-  (refine (conj _ (conj _ (conj _ (conj _ (conj _ _)))));
-   [reflexivity | reflexivity | reflexivity | reflexivity | so_tac | ev_tac]).
-
-Lemma quiet_on_open c s p : quiet s (on_open c s p).
-Proof.
-  unfold on_open. destruct (ps s p) as [x|] eqn:Hp.
-  - destruct x as [|b|po| |y|d o i|k]; try (quiet_tac; fail).
-    destruct po as [y|]; [quiet_tac|]. svc_tac s p.
-  - destruct (should_dial c); cbn [negb]; [destruct (dialable c p)|]; quiet_tac.
-Qed.
-
-Lemma same_open_is_open s s' r : same_open s s' -> is_open (ps s' r) = is_open (ps s r).
-Proof.
-  intros H. destruct (ps s' r) as [[]|] eqn:E1; destruct (ps s r) as [[]|] eqn:E2; cbn; auto;
-    try (apply H in E1; congruence); try (apply H in E2; congruence).
-Qed.
-
-Lemma quiet_trans s s' r :
-  tasks s' = tasks s -> lastt s' = lastt s -> ntask s' = ntask s -> hopen s' = hopen s ->
-  same_open s s' -> quiet s' r -> quiet s r.
-Proof.
-  intros T L N0 HO SO Q. destruct r as [[[s2 ev] cl]|]; cbn in *; auto.
-  destruct Q as (Q1 & Q2 & Q3 & Q4 & Q5 & Q6).
-  refine (conj _ (conj _ (conj _ (conj _ (conj _ _))))); try congruence.
-  - intros q0 k0. rewrite (Q5 q0 k0). apply SO.
-  - eapply Forall_impl; [|exact Q6]. intros e He. destruct e; cbn in *; auto.
-    rewrite <- (same_open_is_open s s'); auto.
-Qed.
-
-Lemma quiet_on_established c s p : quiet s (on_established c s p).
-Proof.
-  unfold on_established. destruct (ps s p) as [x|] eqn:Hp.
-  - destruct x as [|b|po| |y|d o i|k]; try exact I.
-    + destruct b; [exact I|quiet_tac].
-    + eapply quiet_trans; [| | | | |apply quiet_on_open]; setters; auto. so_tac.
-  - quiet_tac.
-Qed.
-
-Lemma quiet_on_sub_out s p x : quiet s (on_sub_out s p x).
-Proof.
-  unfold on_sub_out. destruct (ps s p) as [stt|] eqn:Hp; [|exact I].
-  destruct stt as [|b|po| |y|d o i|k]; try exact I.
-  - destruct po as [y|]; [|exact I]. destruct (y =? x); [quiet_tac|exact I].
-  - destruct ((y =? x) && _); [quiet_tac|exact I].
-  - destruct i; try (quiet_tac; fail); destruct o as [|y| |]; try exact I; destruct (y =? x); try exact I; quiet_tac.
-Qed.
-
-Lemma quiet_on_sub_in s p : quiet s (on_sub_in s p).
-Proof.
-  unfold on_sub_in. destruct (ps s p) as [stt|] eqn:Hp; [|exact I].
-  destruct stt as [|b|po| |y|d o i|k]; try (quiet_tac; fail).
-  - destruct po; quiet_tac.
-  - destruct o, i; quiet_tac.
-Qed.
-
-Lemma quiet_on_open_fail s x : quiet s (on_open_fail s x).
-Proof.
-  unfold on_open_fail. destruct (pend_find x (pend s)) as [p|]; [|exact I]. setters.
-  destruct (ps s p) as [stt|] eqn:Hp; [|exact I].
-  destruct stt as [|b|po| |y|d o i|k]; try exact I.
-  - destruct po as [y|]; [|exact I]. destruct (y =? x); [quiet_tac|exact I].
-  - quiet_tac.
-  - destruct o; quiet_tac.
-Qed.
-
-Lemma quiet_on_dial_fail s p : quiet s (on_dial_fail s p).
-Proof.
-  unfold on_dial_fail. destruct (ps s p) as [stt|] eqn:Hp; [|quiet_tac].
-  destruct stt; quiet_tac.
-Qed.
-
-Lemma quiet_on_validation s p a : quiet s (on_validation s p a).
-Proof.
-  unfold on_validation. destruct (ps s p) as [stt|] eqn:Hp; [|quiet_tac].
-  destruct stt as [|b|po| |y|d o i|k]; try (quiet_tac; fail).
-  - destruct b, a; quiet_tac.
-  - destruct i; try (quiet_tac; fail). destruct a; [|quiet_tac].
-    destruct o; try (quiet_tac; fail). svc_tac s p.
-Qed.
-
-Lemma quiet_on_hs_err s p : quiet s (on_hs_err s p).
-Proof.
-  unfold on_hs_err. destruct (ps s p) as [stt|] eqn:Hp; [|exact I].
-  destruct stt as [|b|po| |y|d o i|k]; try exact I.
-  destruct o; cbn [o_closed pending_open]; quiet_tac.
-Qed.
-
-Lemma quiet_on_timer s p : quiet s (on_timer s p).
-Proof.
-  unfold on_timer. destruct (ps s p) as [stt|] eqn:Hp; [|quiet_tac].
-  destruct stt as [|b|po| |y|d o i|k]; try (quiet_tac; fail).
-  destruct o; try (quiet_tac; fail). destruct i; quiet_tac.
-Qed.
-
-(* ------------------------------------------------------------------ task list facts *)
-Lemma find_task_some k l t : find_task k l = Some t -> In t l /\ t_id t = k.
-Proof.
-  induction l as [|a l IH]; cbn; [discriminate|].
-  destruct (t_id a =? k) eqn:E.
-  - intros H; inversion H; subst. apply N.eqb_eq in E. auto.
-  - intros H. destruct (IH H). auto.
-Qed.
-
-Lemma find_task_in l t : In t l -> exists t', find_task (t_id t) l = Some t'.
-Proof.
-  induction l as [|a l IH]; cbn; [tauto|]. intros [->|H].
-  - rewrite N.eqb_refl. eauto.
-  - destruct (t_id a =? t_id t); eauto.
-Qed.
-
-Lemma nodup_id_eq l t1 t2 :
-  NoDup (map t_id l) -> In t1 l -> In t2 l -> t_id t1 = t_id t2 -> t1 = t2.
-Proof.
-  induction l as [|a l IH]; cbn; [tauto|]. intros ND. inversion ND as [|x y Hn ND']; subst.
-  intros [->|H1] [->|H2] E; auto.
-  - exfalso. apply Hn. rewrite E. now apply in_map.
-  - exfalso. apply Hn. rewrite <- E. now apply in_map.
-Qed.
-
-Lemma in_remove t k l : In t (remove_task k l) <-> In t l /\ t_id t <> k.
-Proof.
-  unfold remove_task. rewrite filter_In. split; intros [H1 H2]; split; auto.
-  - intros E. rewrite E, N.eqb_refl in H2. discriminate.
-  - destruct (t_id t =? k) eqn:E; auto. apply N.eqb_eq in E. contradiction.
-Qed.
-
-Lemma find_task_remove k l : find_task k (remove_task k l) = None.
-Proof.
-  destruct (find_task k (remove_task k l)) eqn:E; auto.
-  apply find_task_some in E. destruct E as [H1 H2]. apply in_remove in H1. tauto.
-Qed.
-
-Lemma nodup_remove k l : NoDup (map t_id l) -> NoDup (map t_id (remove_task k l)).
-Proof.
-  induction l as [|a l IH]; cbn; auto. intros ND. inversion ND as [|x y Hn ND']; subst.
-  destruct (negb (t_id a =? k)); cbn; auto. constructor; auto.
-  intros H. apply Hn. apply in_map_iff in H. destruct H as (t & E & Ht).
-  apply in_remove in Ht. rewrite <- E. apply in_map. tauto.
-Qed.
-
-Lemma NoDup_app_single {A} (l : list A) x : NoDup l -> ~ In x l -> NoDup (l ++ [x]).
-Proof.
-  induction l as [|a l IH]; cbn; intros ND Hn.
-  - constructor; auto.
-  - inversion ND as [|y z Hy ND']; subst. constructor.
-    + intros H. apply in_app_or in H. destruct H as [H|[H|[]]]; auto.
-    + apply IH; auto.
-Qed.
-
-(* ------------------------------------------------------------------ prompt environment *)
-Definition prompt_op (o : op) : bool :=
-  match o with Gate _ => false | TaskDie _ g | NotifyDie _ g => negb g | _ => true end.
-
-Record AInv (s : st) (h : peer -> bool) : Prop := mkAInv {
-  a_task : forall t, In t (tasks s) ->
-             t_closing t = None /\ t_gated t = false /\ ps s (t_peer t) = Some (Open (t_id t)) /\
-             t_id t < ntask s /\ lastt s (t_peer t) = Some (t_id t);
-  a_nodup : NoDup (map t_id (tasks s));
-  a_open : forall p k, ps s p = Some (Open k) -> exists t, In t (tasks s) /\ t_id t = k /\ t_peer t = p;
-  a_last : forall p k, lastt s p = Some k -> k < ntask s /\ forall t, In t (tasks s) -> t_id t = k -> t_peer t = p;
-  a_h : forall p, h p = is_open (ps s p);
-  a_hopen : forall p, hopen s p = h p
-}.
-
-Lemma AInv_init : AInv init (fun _ => false).
-Proof. constructor; cbn; intros; try tauto; try discriminate; auto. constructor. Qed.
-
-Lemma AInv_quiet s s' h :
-  AInv s h -> tasks s' = tasks s -> lastt s' = lastt s -> ntask s' = ntask s -> hopen s' = hopen s ->
-  same_open s s' -> AInv s' h.
-Proof.
-  intros [A1 A2 A3 A4 A5 A6] T L N0 HO SO. constructor; rewrite ?T, ?L, ?N0, ?HO; auto.
-  - intros t Ht. destruct (A1 t Ht) as (B1 & B2 & B3 & B4 & B5). repeat split; auto. now apply SO.
-  - intros p k Hk. apply SO in Hk. auto.
-  - intros p. rewrite A5. symmetry. now apply same_open_is_open.
-Qed.
-
-Lemma grammar_quiet s h ev :
-  (forall p, h p = is_open (ps s p)) -> Forall (quiet_ev s) ev -> grammar h ev = Some h.
-Proof.
-  intros Hh. induction 1 as [|e l He _ IH]; cbn; auto.
-  destruct e; cbn in He; try tauto; auto. rewrite Hh, He. auto.
-Qed.
-
-Lemma drain_quiet s0 ev : Forall (quiet_ev s0) ev -> forall s1 s2 l ks,
-  drain s1 ev = (s2, l, ks) ->
-  ks = [] /\ ps s2 = ps s1 /\ tasks s2 = tasks s1 /\ lastt s2 = lastt s1 /\ ntask s2 = ntask s1 /\
-  hopen s2 = hopen s1 /\ hsI s2 = hsI s1.
-Proof.
-  induction 1 as [|e t He _ IH]; intros s1 s2 l ks; cbn.
-  - intros H; inversion H; subst. repeat split; auto.
-  - destruct e; cbn in He; try tauto.
-    + destruct (hval s1 p).
-      * destruct (drain s1 t) as [[a b] c] eqn:E. intros H; inversion H; subst. eapply IH; eauto.
-      * intros H. apply IH in H. setters. exact H.
-    + intros H. eapply IH; eauto.
-Qed.
-
-Lemma on_validation_reject_ev s p s' ev cl : on_validation s p false = Some (s', ev, cl) -> ev = [].
-Proof.
-  unfold on_validation. destruct (ps s p) as [stt|]; [|intros H; inversion H; auto].
-  destruct stt as [|b|po| |y|d o i|k]; try (intros H; inversion H; auto; fail).
-  - destruct b; intros H; inversion H; auto.
-  - destruct i; intros H; inversion H; auto.
-Qed.
-
-Lemma quiet_seq s s1 e1 c1 s2 e2 c2 :
-  quiet s (Some (s1, e1, c1)) -> quiet s1 (Some (s2, e2, c2)) -> quiet s (Some (s2, e1 ++ e2, c1 ++ c2)).
-Proof.
-  intros Q1 Q2. pose proof Q1 as (T & L & N0 & HO & SO & F1).
-  pose proof (quiet_trans s s1 (Some (s2, e2, c2)) T L N0 HO SO Q2) as (T2 & L2 & N2 & HO2 & SO2 & F2).
-  cbn. refine (conj _ (conj _ (conj _ (conj _ (conj _ _))))); auto. apply Forall_app; auto.
-Qed.
-
-Lemma dropped_quiet l : forall s s' ev cl,
-  dropped_validations s l = Some (s', ev, cl) -> quiet s (Some (s', ev, cl)) /\ ev = [].
-Proof.
-  induction l as [|p l IH]; intros s s' ev cl; cbn.
-  - intros H; inversion H; subst. split; auto. cbn. repeat split; auto using same_open_refl.
-  - pose proof (quiet_on_validation s p false) as Q.
-    destruct (on_validation s p false) as [[[s1 e1] c1]|] eqn:E1; [|discriminate].
-    apply on_validation_reject_ev in E1 as ->.
-    destruct (dropped_validations s1 l) as [[[s2 e2] c2]|] eqn:E2; [|discriminate].
-    intros H; inversion H; subst. destruct (IH _ _ _ _ E2) as [Q2 ->]. split; auto.
-    apply (quiet_seq s s1 [] c1 s' [] c2); auto.
-Qed.
-
-(* a step whose main handler is quiet keeps the invariant and the grammar state *)
-Lemma grammar_notifs h l : (forall q, In q l -> h q = true) -> grammar h (map UNotif l) = Some h.
-Proof.
-  induction l as [|a l IH]; cbn; auto. intros H. rewrite (H a) by auto. apply IH. auto.
-Qed.
-
-Lemma filter_all {A} (f : A -> bool) l : (forall x, In x l -> f x = true) -> filter f l = l.
-Proof.
-  induction l as [|a l IH]; cbn; auto. intros H. rewrite (H a) by auto. rewrite IH; auto.
-Qed.
-
-Lemma filter_none {A} (f : A -> bool) l : (forall x, In x l -> f x = false) -> filter f l = [].
-Proof.
-  induction l as [|a l IH]; cbn; auto. intros H. rewrite (H a) by auto. apply IH; auto.
-Qed.
-
-Lemma step_of_quiet c s o h s1 ev calls s' ev' calls' :
-  AInv s h -> (forall q, In q (notifs_of s o) -> h q = true) ->
-  main_handler c s o = Some (s1, ev, calls) -> quiet s (Some (s1, ev, calls)) ->
-  step c s o = Some (s', ev', calls') -> grammar h ev' = Some h /\ AInv s' h.
-Proof.
-  intros A NF M Q. unfold step. rewrite M.
-  destruct Q as (T & L & N0 & HO & SO & F).
-  destruct (drain s1 ev) as [[s2 dr] ks] eqn:D.
-  destruct (drain_quiet s ev F _ _ _ _ D) as (-> & P2 & T2 & L2 & N2 & HO2 & _).
-  rewrite filter_all by (intros q Hq; rewrite HO2, HO; destruct A as [_ _ _ _ _ A6]; rewrite A6; auto).
-  destruct (dropped_validations s2 dr) as [[[s3 ev3] calls3]|] eqn:DV; [|discriminate].
-  destruct (dropped_quiet _ _ _ _ _ DV) as [Q3 ->]. cbn [kill_tasks app drain].
-  intros H; inversion H; subst. rewrite app_nil_r.
-  destruct Q3 as (T3 & L3 & N3 & HO3 & SO3 & _).
-  split.
-  - rewrite grammar_app. erewrite grammar_quiet; eauto; [|apply A]. now apply grammar_notifs.
-  - eapply AInv_quiet; eauto; try congruence.
-    intros q k. rewrite (SO3 q k). rewrite P2. apply SO.
-Qed.
-
-(* ---- a step that ends the open stream of p ---- *)
-Definition closes (s : st) (p : peer) (s1 : st) : Prop :=
-  exists k, ps s p = Some (Open k) /\ tasks s1 = remove_task k (tasks s) /\ lastt s1 = lastt s /\
-            ntask s1 = ntask s /\ hopen s1 = hopen s /\ is_open (ps s1 p) = false /\
-            (forall q, q <> p -> ps s1 q = ps s q).
-
-Lemma AInv_closes s h p s1 :
-  AInv s h -> closes s p s1 -> AInv (set_hopen s1 p false) (upd h p false) /\ h p = true /\
-  (exists k, lastt s1 p = Some k /\ running s1 k = false) /\ hopen s1 p = true.
-Proof.
-  intros [A1 A2 A3 A4 A5 A6] (k & Hp & T & L & N0 & HO & NO & FR).
-  destruct (A3 p k Hp) as (t0 & In0 & Id0 & Pe0).
-  destruct (A1 t0 In0) as (_ & _ & _ & _ & La0). rewrite Pe0, Id0 in La0.
-  assert (Hh : h p = true) by (rewrite A5, Hp; reflexivity).
-  split; [|split; [auto|split]].
-  - constructor; setters; rewrite ?T, ?L, ?N0.
-    + intros t Ht. apply in_remove in Ht. destruct Ht as [Ht Hne].
-      destruct (A1 t Ht) as (B1 & B2 & B3 & B4 & B5). repeat split; auto.
-      rewrite FR; auto. intros E. rewrite E, Hp in B3. inversion B3. congruence.
-    + now apply nodup_remove.
-    + intros q k' Hq. assert (q <> p) by (intros ->; rewrite Hq in NO; discriminate).
-      rewrite FR in Hq by auto. destruct (A3 q k' Hq) as (t & In1 & Id1 & Pe1).
-      exists t. repeat split; auto. apply in_remove. split; auto. intros E.
-      assert (t = t0) by (eapply nodup_id_eq; eauto; congruence). subst t. congruence.
-    + intros q k' Hq. destruct (A4 q k' Hq) as [B1 B2]. split; auto.
-      intros t Ht. apply in_remove in Ht. apply B2. tauto.
-    + intros q. unfold upd. destruct (q =? p) eqn:E.
-      * apply N.eqb_eq in E. subst q. now rewrite NO.
-      * apply N.eqb_neq in E. rewrite FR by auto. apply A5.
-    + intros q. rewrite HO. unfold upd. destruct (q =? p); auto.
-  - exists k. rewrite L. split; auto. unfold running. rewrite T, find_task_remove. reflexivity.
-  - rewrite HO, A6. exact Hh.
-Qed.
-
-Lemma step_of_closes c s o h p s1 calls s' ev' calls' :
-  AInv s h -> (forall q, In q (notifs_of s o) -> q = p) ->
-  main_handler c s o = Some (s1, [UClosed p], calls) -> closes s p s1 ->
-  step c s o = Some (s', ev', calls') ->
-  grammar h ev' = Some (upd h p false) /\ AInv s' (upd h p false).
-Proof.
-  intros A NF M C. unfold step. rewrite M.
-  destruct (AInv_closes s h p s1 A C) as (A' & Hh & (k & Lk & Rk) & HO).
-  cbn [drain]. rewrite HO, Lk, Rk.
-  rewrite filter_none by (intros q Hq; apply NF in Hq; subst q; setters; apply upd_same).
-  cbn [map app dropped_validations ok kill_tasks drain].
-  intros H; inversion H; subst. cbn [app grammar]. rewrite Hh. auto.
-Qed.
-
-(* ---- a step that opens a stream to p ---- *)
-Definition opens (s : st) (p : peer) (s1 : st) : Prop :=
-  is_open (ps s p) = false /\ ps s1 p = Some (Open (ntask s)) /\
-  tasks s1 = tasks s ++ [mkTask (ntask s) p None false] /\
-  lastt s1 = upd (lastt s) p (Some (ntask s)) /\ ntask s1 = ntask s + 1 /\ hopen s1 = hopen s /\
-  (forall q, q <> p -> ps s1 q = ps s q).
-
-Lemma AInv_opens s h p s1 :
-  AInv s h -> opens s p s1 -> AInv (set_hopen s1 p true) (upd h p true) /\ h p = false.
-Proof.
-  intros [A1 A2 A3 A4 A5 A6] (NO & Hp & T & L & N0 & HO & FR).
-  assert (Hh : h p = false) by (rewrite A5; exact NO).
-  assert (Fresh : forall t, In t (tasks s) -> t_id t <> ntask s /\ t_peer t <> p).
-  { intros t Ht. destruct (A1 t Ht) as (_ & _ & B3 & B4 & _). split; [lia|].
-    intros E. rewrite E in B3. rewrite B3 in NO. discriminate. }
-  split; auto. constructor; setters; rewrite ?T, ?L, ?N0.
-  - intros t Ht. apply in_app_or in Ht. destruct Ht as [Ht|[<-|[]]].
-    + destruct (A1 t Ht) as (B1 & B2 & B3 & B4 & B5). destruct (Fresh t Ht) as [F1 F2].
-      repeat split; auto; try lia. rewrite FR; auto. rewrite upd_other; auto.
-    + cbn. repeat split; auto; try lia. now rewrite upd_same.
-  - rewrite map_app. cbn. apply NoDup_app_single; auto.
-    intros H. apply in_map_iff in H. destruct H as (t & E & Ht). destruct (Fresh t Ht). congruence.
-  - intros q k Hq. destruct (N.eq_dec q p) as [->|Hne].
-    + rewrite Hp in Hq. inversion Hq; subst. eexists. split; [apply in_or_app; right; left; reflexivity|]. auto.
-    + rewrite FR in Hq by auto. destruct (A3 q k Hq) as (t & In1 & Id1 & Pe1).
-      exists t. repeat split; auto. apply in_or_app. auto.
-  - intros q k Hq. destruct (N.eq_dec q p) as [->|Hne].
-    + rewrite upd_same in Hq. inversion Hq; subst. split; [lia|].
-      intros t Ht Id. apply in_app_or in Ht. destruct Ht as [Ht|[<-|[]]]; auto.
-      destruct (Fresh t Ht). contradiction.
-    + rewrite upd_other in Hq by auto. destruct (A4 q k Hq) as [B1 B2]. split; [lia|].
-      intros t Ht Id. apply in_app_or in Ht. destruct Ht as [Ht|[<-|[]]]; auto.
-      cbn in Id. lia.
-  - intros q. unfold upd. destruct (q =? p) eqn:E.
-    + apply N.eqb_eq in E. subst q. now rewrite Hp.
-    + apply N.eqb_neq in E. rewrite FR by auto. apply A5.
-  - intros q. rewrite HO. unfold upd. destruct (q =? p); auto.
-Qed.
-
-Lemma step_of_opens c s o h p d s1 calls s' ev' calls' :
-  AInv s h -> notifs_of s o = [] -> main_handler c s o = Some (s1, [UOpened p d], calls) -> opens s p s1 ->
-  step c s o = Some (s', ev', calls') ->
-  grammar h ev' = Some (upd h p true) /\ AInv s' (upd h p true).
-Proof.
-  intros A NF M C. unfold step. rewrite M, NF. cbn [filter map].
-  destruct (AInv_opens s h p s1 A C) as (A' & Hh).
-  cbn [drain app dropped_validations ok kill_tasks].
-  intros H; inversion H; subst. cbn [app grammar]. rewrite Hh. auto.
-Qed.
-
-Inductive shape (s : st) : res -> Prop :=
-| sh_none : shape s None
-| sh_quiet s1 ev cl : quiet s (Some (s1, ev, cl)) -> shape s (Some (s1, ev, cl))
-| sh_closes p s1 cl : closes s p s1 -> shape s (Some (s1, [UClosed p], cl))
-| sh_opens p d s1 cl : opens s p s1 -> shape s (Some (s1, [UOpened p d], cl)).
-
-Lemma shape_of_quiet s r : quiet s r -> shape s r.
-Proof. destruct r as [[[s1 ev] cl]|]; intros; constructor; auto. Qed.
-
-(* the frame: fields the invariant does not look at may differ *)
-Definition same_core (s s0 : st) : Prop :=
-  ps s0 = ps s /\ tasks s0 = tasks s /\ lastt s0 = lastt s /\ ntask s0 = ntask s /\ hopen s0 = hopen s.
-
-Lemma quiet_frame s s0 r : same_core s s0 -> quiet s0 r -> quiet s r.
-Proof.
-  intros (P & T & L & N0 & HO) Q. eapply quiet_trans; eauto.
-  intros q k. rewrite P. tauto.
-Qed.
-
-Lemma closes_frame s s0 p s1 : same_core s s0 -> closes s0 p s1 -> closes s p s1.
-Proof.
-  intros (P & T & L & N0 & HO) (k & H1 & H2 & H3 & H4 & H5 & H6 & H7).
-  exists k. rewrite <- P, <- T, <- L, <- N0, <- HO. repeat split; auto.
-Qed.
-
-Lemma opens_frame s s0 p s1 : same_core s s0 -> opens s0 p s1 -> opens s p s1.
-Proof.
-  intros (P & T & L & N0 & HO) (H1 & H2 & H3 & H4 & H5 & H6 & H7).
-  unfold opens. rewrite <- P, <- T, <- L, <- N0, <- HO. repeat split; auto.
-Qed.
-
-Lemma shape_frame s s0 r : same_core s s0 -> shape s0 r -> shape s r.
-Proof.
-  intros C H. destruct H.
-  - constructor.
-  - apply sh_quiet. eapply quiet_frame; eauto.
-  - apply sh_closes. eapply closes_frame; eauto.
-  - apply sh_opens. eapply opens_frame; eauto.
-Qed.
-
-Lemma signal_open s h s0 p k :
-  AInv s h -> ps s p = Some (Open k) -> tasks s0 = tasks s ->
-  signal s0 k = (set_tasks s0 (remove_task k (tasks s)), [UClosed p]).
-Proof.
-  intros [A1 A2 A3 A4 A5 A6] Hp T.
-  destruct (A3 p k Hp) as (t0 & In0 & Id0 & Pe0).
-  destruct (find_task_in _ _ In0) as (t' & F). rewrite Id0 in F.
-  destruct (find_task_some _ _ _ F) as [In1 Id1].
-  assert (t' = t0) by (eapply nodup_id_eq; eauto; congruence). subst t'.
-  destruct (A1 t0 In0) as (B1 & B2 & _).
-  unfold signal. rewrite T, F, B1, B2, Pe0. reflexivity.
-Qed.
-
-Lemma shape_on_closed s h p : AInv s h -> shape s (on_closed s p).
-Proof.
-  intros A. unfold on_closed. setters.
-  destruct (ps s p) as [x|] eqn:Hp; [|constructor].
-  destruct x as [|b|po| |y|d o i|k]; try (apply sh_quiet; quiet_tac; fail).
-  - destruct o, i; apply sh_quiet; quiet_tac.
-  - erewrite (signal_open s h _ p k A Hp) by reflexivity.
-    apply sh_closes. exists k. setters. repeat apply conj; auto.
-    + now rewrite upd_same.
-    + intros q Hq. now rewrite upd_other.
-Qed.
-
-Lemma shape_on_close s h p : AInv s h -> shape s (on_close s p).
-Proof.
-  intros A. unfold on_close.
-  destruct (ps s p) as [x|] eqn:Hp; [|apply sh_quiet; quiet_tac].
-  destruct x as [|b|po| |y|d o i|k]; try (apply sh_quiet; quiet_tac; fail).
-  erewrite (signal_open s h s p k A Hp) by reflexivity.
-  apply sh_closes. exists k. setters. repeat apply conj; auto.
-  - now rewrite upd_same.
-  - intros q Hq. now rewrite upd_other.
-Qed.
-
-Lemma shape_hs_finish s0 s p :
-  tasks s = tasks s0 -> lastt s = lastt s0 -> ntask s = ntask s0 -> hopen s = hopen s0 ->
-  is_open (ps s0 p) = false -> (forall q, q <> p -> ps s q = ps s0 q) ->
-  is_open (ps s p) = false ->
-  shape s0 (hs_finish s p).
-Proof.
-  intros T L N0 HO NO FR NO2. unfold hs_finish.
-  assert (Q : quiet s0 (ok s)).
-  { unfold quiet, ok. refine (conj _ (conj _ (conj _ (conj _ (conj _ _))))); auto.
-    intros r k. destruct (N.eq_dec r p) as [->|Hne].
-    - split; intros H; rewrite H in *; discriminate.
-    - rewrite FR by auto. tauto. }
-  destruct (ps s p) as [x|] eqn:Hp; [|apply sh_quiet; exact Q].
-  destruct x as [|b|po| |y|d o i|k]; try (apply sh_quiet; exact Q).
-  destruct o; try (apply sh_quiet; exact Q). destruct i; try (apply sh_quiet; exact Q).
-  apply sh_opens. unfold opens, spawn_task. setters. rewrite T, L, N0, HO.
-  repeat apply conj; auto.
-  - now rewrite upd_same.
-  - intros r Hr. rewrite upd_other; auto.
-Qed.
-
-Ltac finish_tac Hp :=
-  apply shape_hs_finish; setters; auto;
-  [ rewrite Hp; reflexivity
-  | let r := fresh "r" in let Hr := fresh "Hr" in intros r Hr; now rewrite upd_other
-  | now rewrite upd_same ].
-
-Lemma shape_on_hs_out_ok s p : shape s (on_hs_out_ok s p).
-Proof.
-  unfold on_hs_out_ok. destruct (ps s p) as [x|] eqn:Hp; [|constructor].
-  destruct x as [|b|po| |y|d o i|k]; try constructor.
-  destruct o; try constructor. finish_tac Hp.
-Qed.
-
-Lemma shape_on_hs_in_ok c s p : shape s (on_hs_in_ok c s p).
-Proof.
-  unfold on_hs_in_ok. destruct (ps s p) as [x|] eqn:Hp; [|constructor].
-  destruct x as [|b|po| |y|d o i|k]; try constructor.
-  destruct i; try constructor.
-  - destruct (negb (o_closed o) && auto_accept c); apply sh_quiet; quiet_tac.
-  - finish_tac Hp.
-Qed.
-
-Lemma map_ungate_id p l :
-  (forall t, In t l -> t_closing t = None /\ t_gated t = false) ->
-  map (fun t => if t_peer t =? p then mkTask (t_id t) (t_peer t) (t_closing t) false else t) l = l.
-Proof.
-  induction l as [|a l IH]; cbn; auto. intros H. rewrite IH by auto.
-  destruct (H a (or_introl eq_refl)) as [_ G]. destruct a as [i q cl g]; cbn in *. subst g.
-  destruct (q =? p); reflexivity.
-Qed.
-
-Lemma finish_tasks_id p l :
-  (forall t, In t l -> t_closing t = None /\ t_gated t = false) -> finish_tasks p l = (l, [], 0).
-Proof.
-  induction l as [|a l IH]; cbn; auto. intros H. rewrite IH by auto.
-  destruct (H a (or_introl eq_refl)) as [C G]. rewrite C, G.
-  destruct (t_peer a =? p); reflexivity.
-Qed.
-
-Lemma quiet_ok_frame s s0 : same_core s s0 -> quiet s (ok s0).
-Proof.
-  intros (P & T & L & N0 & HO). unfold quiet, ok.
-  refine (conj _ (conj _ (conj _ (conj _ (conj _ _))))); auto. intros r k. rewrite P. tauto.
-Qed.
-
-Lemma shape_task_die s h p : AInv s h -> shape s (task_die_op s p false).
-Proof.
-  intros A. pose proof A as [A1 A2 A3 A4 A5 A6]. unfold task_die_op. cbn [orb].
-  destruct (lastt s p) as [k|] eqn:Lk; [|apply sh_quiet; quiet_tac].
-  destruct (find_task k (tasks s)) as [t|] eqn:F; [|apply sh_quiet; quiet_tac].
-  destruct (find_task_some _ _ _ F) as [In1 Id1].
-  destruct (A1 t In1) as (B1 & B2 & B3 & B4 & B5). rewrite B1, B2.
-  destruct (A4 p k Lk) as [_ Pe]. specialize (Pe t In1 Id1). rewrite Pe, Id1 in B3.
-  apply sh_closes. exists k. unfold on_shutdown. setters. rewrite B3.
-  unfold task_closed. setters. rewrite find_task_remove. setters.
-  repeat apply conj; auto.
-  + now rewrite upd_same.
-  + intros r Hr. now rewrite upd_other.
-Qed.
-
-Lemma main_shape c s o h : AInv s h -> prompt_op o = true -> shape s (main_handler c s o).
-Proof.
-  intros A PO. pose proof A as [A1 A2 A3 A4 A5 A6].
-  destruct o as [p|p|p|p|p|p|p b|p b|p a|p|p|p|p|p g|p|p|p|p|p g]; cbn [main_handler].
-  - destruct (conn s p); [apply sh_quiet; quiet_tac|].
-    apply shape_of_quiet. eapply quiet_frame; [|apply quiet_on_established]. repeat split.
-  - destruct (conn s p); [|apply sh_quiet; quiet_tac].
-    apply (shape_frame s (set_spend (set_conn s p false) (drop_peer p (spend s)))); [repeat split|].
-    apply (shape_on_closed _ h). eapply AInv_quiet; [exact A|..]; setters; auto. intros q0 k0; setters; tauto.
-  - destruct (conn s p); apply shape_of_quiet; [apply quiet_on_sub_in|quiet_tac].
-  - destruct (conn s p); [|apply sh_quiet; quiet_tac].
-    destruct (first_req p (spend s)); [|apply sh_quiet; quiet_tac].
-    apply shape_of_quiet. eapply quiet_frame; [|apply quiet_on_sub_out]. repeat split.
-  - destruct (conn s p); [|apply sh_quiet; quiet_tac].
-    destruct (first_req p (spend s)); [|apply sh_quiet; quiet_tac].
-    apply shape_of_quiet. eapply quiet_frame; [|apply quiet_on_open_fail]. repeat split.
-  - apply shape_of_quiet. apply quiet_on_dial_fail.
-  - destruct (hsI s p); [|apply sh_quiet; quiet_tac].
-    destruct b; [apply shape_on_hs_in_ok|apply shape_of_quiet, quiet_on_hs_err].
-  - destruct (hsO s p); [|apply sh_quiet; quiet_tac].
-    destruct b; [apply shape_on_hs_out_ok|apply shape_of_quiet, quiet_on_hs_err].
-  - destruct (hval s p); [|apply sh_quiet; quiet_tac].
-    apply shape_of_quiet. eapply quiet_frame; [|apply quiet_on_validation]. repeat split.
-  - apply shape_of_quiet, quiet_on_timer.
-  - destruct (hopen s p); [apply sh_quiet; quiet_tac|]. apply shape_of_quiet, quiet_on_open.
-  - destruct (hopen s p); [|apply sh_quiet; quiet_tac]. eapply shape_on_close; eauto.
-  - apply sh_quiet. quiet_tac.
-  - cbn in PO. destruct g; [discriminate|]. eapply shape_task_die; eauto.
-  - (* Release *)
-    rewrite map_ungate_id by (intros t Ht; destruct (A1 t Ht) as (B1 & B2 & _); auto).
-    rewrite finish_tasks_id by (intros t Ht; destruct (A1 t Ht) as (B1 & B2 & _); auto).
-    cbn [run_shutdowns N.eqb]. apply sh_quiet. unfold run_shutdowns. cbn. quiet_tac.
-  - destruct (conn s p); apply sh_quiet; quiet_tac.
-  - discriminate.
-  - apply sh_quiet. quiet_tac.
-  - cbn in PO. destruct g; [discriminate|]. eapply shape_task_die; eauto.
-Qed.
-
-Lemma notifs_facts s h o q : AInv s h -> In q (notifs_of s o) -> q = op_peer o /\ h q = true.
-Proof.
-  intros [A1 A2 A3 A4 A5 A6] H.
-  assert (G : forall p, In q (match lastt s p with Some k => if running s k then [p] else [] | None => [] end) ->
-                        q = p /\ h q = true).
-  { intros p Hq. destruct (lastt s p) as [k|] eqn:Lk; [|destruct Hq].
-    unfold running in Hq. destruct (find_task k (tasks s)) as [t|] eqn:F; [|destruct Hq].
-    destruct (t_closing t) eqn:TC; [destruct Hq|]. destruct Hq as [<-|[]]. split; auto.
-    destruct (find_task_some _ _ _ F) as [In1 Id1]. destruct (A4 p k Lk) as [_ Pe].
-    specialize (Pe t In1 Id1). destruct (A1 t In1) as (_ & _ & B3 & _). rewrite Pe in B3.
-    rewrite A5, B3. reflexivity. }
-  destruct o; cbn in H; try destruct H; cbn [op_peer]; apply G; auto.
-Qed.
-
-Lemma step_inv c s o h s' ev calls :
-  AInv s h -> prompt_op o = true -> step c s o = Some (s', ev, calls) ->
-  exists h', grammar h ev = Some h' /\ AInv s' h'.
-Proof.
-  intros A PO S. pose proof (main_shape c s o h A PO) as Sh.
-  destruct (main_handler c s o) as [[[s1 ev1] cl1]|] eqn:M.
-  - inversion Sh; subst.
-    + exists h. eapply step_of_quiet; eauto. intros q Hq. eapply notifs_facts; eauto.
-    + eexists. eapply step_of_closes; eauto. intros q Hq.
-      destruct (notifs_facts _ _ _ _ A Hq) as [-> _].
-      (* the closing peer is the peer of the event *)
-      destruct o; cbn in Hq; try destruct Hq; cbn [op_peer main_handler] in *;
-        unfold ok, task_die_op in M;
-        repeat match type of M with context [match ?x with _ => _ end] => destruct x end;
-        inversion M; reflexivity.
-    + eexists. eapply step_of_opens; eauto.
-      destruct o; cbn; auto; exfalso; cbn [main_handler] in M;
-        unfold ok, task_die_op in M;
-        repeat match type of M with context [match ?x with _ => _ end] => destruct x end; inversion M.
-  - unfold step in S. rewrite M in S. discriminate.
-Qed.
-
-Definition events (r : list (st * list uev * list call)) : list uev :=
-  flat_map (fun x => snd (fst x)) r.
-
-Lemma run_grammar c ops : forall s h,
-  AInv s h -> forallb prompt_op ops = true ->
-  exists h', grammar h (events (fst (run c s ops))) = Some h'.
-Proof.
-  induction ops as [|o t IH]; intros s h A P; cbn [run fst events flat_map].
-  - exists h. reflexivity.
-  - cbn in P. apply andb_true_iff in P. destruct P as [P1 P2].
-    destruct (step c s o) as [[[s1 ev] calls]|] eqn:S.
-    + destruct (step_inv _ _ _ _ _ _ _ A P1 S) as (h1 & G1 & A1).
-      destruct (IH s1 h1 A1 P2) as (h2 & G2).
-      destruct (run c s1 t) as [r b]. cbn [fst events flat_map snd] in *.
-      exists h2. rewrite grammar_app, G1. exact G2.
-    + exists h. reflexivity.
-Qed.
-
-(* every reachable state of a prompt run satisfies the invariant: used for the corollaries *)
-Lemma run_inv c ops : forall s h,
-  AInv s h -> forallb prompt_op ops = true ->
-  forall x, In x (fst (run c s ops)) -> exists h', AInv (fst (fst x)) h'.
-Proof.
-  induction ops as [|o t IH]; intros s h A P x; cbn [run fst].
-  - intros [].
-  - cbn in P. apply andb_true_iff in P. destruct P as [P1 P2].
-    destruct (step c s o) as [[[s1 ev] calls]|] eqn:S; [|intros []].
-    destruct (step_inv _ _ _ _ _ _ _ A P1 S) as (h1 & G1 & A1).
-    specialize (IH s1 h1 A1 P2). destruct (run c s1 t) as [r b]. cbn [fst] in *.
-    intros [<-|H]; eauto.
-Qed.
-
-(* ------------------------------------------------------------------ Opened needs an accepted inbound *)
-Lemma quiet_no_opened s s1 ev cl p d : quiet s (Some (s1, ev, cl)) -> ~ In (UOpened p d) ev.
-Proof.
-  intros (_ & _ & _ & _ & _ & F) H. rewrite Forall_forall in F. apply F in H. exact H.
-Qed.
-
-Lemma signal_ev s k s' ev p d : signal s k = (s', ev) -> ~ In (UOpened p d) ev.
-Proof.
-  unfold signal. destruct (find_task k (tasks s)) as [t|]; [|intros H; inversion H; subst; auto].
-  destruct (t_closing t); [intros H; inversion H; subst; auto|].
-  destruct (t_gated t); intros H; inversion H; subst; cbn; [tauto|]. intros [E|[]]. discriminate.
-Qed.
-
-Lemma finish_tasks_ev p l : forall l' ev n q d, finish_tasks p l = (l', ev, n) -> ~ In (UOpened q d) ev.
-Proof.
-  induction l as [|a l IH]; cbn; intros l' ev n q d.
-  - intros H; inversion H; subst. auto.
-  - destruct (finish_tasks p l) as [[r' e'] n'] eqn:E.
-    destruct ((t_peer a =? p) && negb (t_gated a)); [destruct (t_closing a)|];
-      intros H; inversion H; subst; cbn; try (eapply IH; eauto; fail).
-    intros [X|X]; [discriminate|]. eapply IH; eauto.
-Qed.
-
-Definition accepted_in (x : option pstate) (d : dir) : Prop :=
-  (exists i, x = Some (Validating d ONeg i) /\ i = IOpen) \/
-  (exists o, x = Some (Validating d o ISending) /\ o = OOpen).
-
-Lemma hs_finish_opened s p q d s1 ev cl :
-  hs_finish s p = Some (s1, ev, cl) -> In (UOpened q d) ev ->
-  q = p /\ ps s p = Some (Validating d OOpen IOpen).
-Proof.
-  unfold hs_finish. destruct (ps s p) as [x|]; [|intros H; inversion H; subst; intros []].
-  destruct x as [|b|po| |y|d0 o i|k]; try (intros H; inversion H; subst; intros []; fail).
-  destruct o; try (intros H; inversion H; subst; intros []; fail).
-  destruct i; try (intros H; inversion H; subst; intros []; fail).
-  intros H; inversion H; subst. intros [E|[]]. inversion E; subst. auto.
-Qed.
-
-Lemma main_opened c s o s1 ev cl p d :
-  main_handler c s o = Some (s1, ev, cl) -> In (UOpened p d) ev -> accepted_in (ps s p) d.
-Proof.
-  destruct o as [q|q|q|q|q|q|q b|q b|q a|q|q|q|q|q g|q|q|q|q|q g]; cbn [main_handler]; intros M HIn.
-  - destruct (conn s q); [inversion M; subst; destruct HIn|].
-    exfalso. eapply quiet_no_opened; [|exact HIn]. rewrite <- M. apply quiet_on_established.
-  - destruct (conn s q); [|inversion M; subst; destruct HIn].
-    revert M. unfold on_closed. setters.
-    destruct (ps s q) as [x|]; [|discriminate].
-    destruct x as [|b|po| |y|d0 o i|k]; try (intros M; inversion M; subst; cbn in HIn; intuition discriminate).
-    + destruct o, i; intros M; inversion M; subst; cbn in HIn; intuition discriminate.
-    + destruct (signal _ k) as [s2 e2] eqn:Sg. intros M; inversion M; subst.
-      exfalso. eapply signal_ev; eauto.
-  - destruct (conn s q); [|inversion M; subst; destruct HIn].
-    exfalso. eapply quiet_no_opened; [|exact HIn]. rewrite <- M. apply quiet_on_sub_in.
-  - destruct (conn s q); [|inversion M; subst; destruct HIn].
-    destruct (first_req q (spend s)); [|inversion M; subst; destruct HIn].
-    exfalso. eapply quiet_no_opened; [|exact HIn]. rewrite <- M. apply quiet_on_sub_out.
-  - destruct (conn s q); [|inversion M; subst; destruct HIn].
-    destruct (first_req q (spend s)); [|inversion M; subst; destruct HIn].
-    exfalso. eapply quiet_no_opened; [|exact HIn]. rewrite <- M. apply quiet_on_open_fail.
-  - exfalso. eapply quiet_no_opened; [|exact HIn]. rewrite <- M. apply quiet_on_dial_fail.
-  - (* HsIn *)
-    destruct (hsI s q); [|inversion M; subst; destruct HIn].
-    destruct b; [|exfalso; eapply quiet_no_opened; [|exact HIn]; rewrite <- M; apply quiet_on_hs_err].
-    revert M. unfold on_hs_in_ok. destruct (ps s q) as [x|] eqn:Hq; [|discriminate].
-    destruct x as [|b|po| |y|d0 o i|k]; try discriminate.
-    destruct i; try discriminate.
-    + destruct (negb (o_closed o) && auto_accept c); intros M; inversion M; subst; cbn in HIn; intuition discriminate.
-    + intros M. destruct (hs_finish_opened _ _ _ _ _ _ _ M HIn) as [-> E].
-      setters. rewrite upd_same in E. inversion E; subst. right. rewrite Hq. eauto.
-  - (* HsOut *)
-    destruct (hsO s q); [|inversion M; subst; destruct HIn].
-    destruct b; [|exfalso; eapply quiet_no_opened; [|exact HIn]; rewrite <- M; apply quiet_on_hs_err].
-    revert M. unfold on_hs_out_ok. destruct (ps s q) as [x|] eqn:Hq; [|discriminate].
-    destruct x as [|b|po| |y|d0 o i|k]; try discriminate.
-    destruct o; try discriminate.
-    intros M. destruct (hs_finish_opened _ _ _ _ _ _ _ M HIn) as [-> E].
-    setters. rewrite upd_same in E. inversion E; subst. left. rewrite Hq. eauto.
-  - destruct (hval s q); [|inversion M; subst; destruct HIn].
-    exfalso. eapply quiet_no_opened; [|exact HIn]. rewrite <- M. apply quiet_on_validation.
-  - exfalso. eapply quiet_no_opened; [|exact HIn]. rewrite <- M. apply quiet_on_timer.
-  - destruct (hopen s q); [inversion M; subst; destruct HIn|].
-    exfalso. eapply quiet_no_opened; [|exact HIn]. rewrite <- M. apply quiet_on_open.
-  - destruct (hopen s q); [|inversion M; subst; destruct HIn].
-    revert M. unfold on_close. destruct (ps s q) as [x|]; [|intros M; inversion M; subst; destruct HIn].
-    destruct x as [|b|po| |y|d0 o i|k]; try (intros M; inversion M; subst; destruct HIn).
-    destruct (signal s k) as [s2 e2] eqn:Sg. intros M; inversion M; subst. exfalso. eapply signal_ev; eauto.
-  - inversion M; subst; destruct HIn.
-  - revert M. unfold task_die_op. destruct (lastt s q); [|intros M; inversion M; subst; destruct HIn].
-    destruct (find_task n (tasks s)) as [t|]; [|intros M; inversion M; subst; destruct HIn].
-    destruct (t_closing t); [intros M; inversion M; subst; destruct HIn|].
-    destruct (g || t_gated t); intros M; inversion M; subst; cbn in HIn; intuition discriminate.
-  - revert M. destruct (finish_tasks q _) as [[l' e'] n'] eqn:F. intros M; inversion M; subst.
-    exfalso. eapply finish_tasks_ev; eauto.
-  - destruct (conn s q); inversion M; subst; destruct HIn.
-  - revert M. destruct (lastt s q); intros M; inversion M; subst; destruct HIn.
-  - inversion M; subst; destruct HIn.
-  - revert M. unfold task_die_op. destruct (lastt s q); [|intros M; inversion M; subst; destruct HIn].
-    destruct (find_task n (tasks s)) as [t|]; [|intros M; inversion M; subst; destruct HIn].
-    destruct (t_closing t); [intros M; inversion M; subst; destruct HIn|].
-    destruct (g || t_gated t); intros M; inversion M; subst; cbn in HIn; intuition discriminate.
-Qed.
-
-Lemma task_dies_ev s k s' ev p d : task_dies s k = (s', ev) -> ~ In (UOpened p d) ev.
-Proof.
-  unfold task_dies. destruct (find_task k (tasks s)) as [t|]; [|intros H; inversion H; subst; auto].
-  destruct (t_closing t); [intros H; inversion H; subst; auto|].
-  destruct (t_gated t); intros H; inversion H; subst; cbn; [tauto|]. intros [E|[]]. discriminate.
-Qed.
-
-Lemma kill_tasks_ev ks : forall s s' ev p d, kill_tasks s ks = (s', ev) -> ~ In (UOpened p d) ev.
-Proof.
-  induction ks as [|k t IH]; cbn; intros s s' ev p d.
-  - intros H; inversion H; subst. auto.
-  - destruct (task_dies s k) as [s1 e1] eqn:E1. destruct (kill_tasks s1 t) as [s2 e2] eqn:E2.
-    intros H; inversion H; subst. intros X. apply in_app_or in X. destruct X as [X|X].
-    + eapply task_dies_ev; eauto.
-    + eapply IH; eauto.
-Qed.
-
-Lemma step_opened c s o s' ev calls p d :
-  step c s o = Some (s', ev, calls) -> In (UOpened p d) ev -> accepted_in (ps s p) d.
-Proof.
-  unfold step. destruct (main_handler c s o) as [[[s1 ev1] cl1]|] eqn:M; [|discriminate].
-  destruct (drain s1 ev1) as [[s2 dr] ks].
-  destruct (dropped_validations s2 dr) as [[[s3 ev3] cl3]|] eqn:DV; [|discriminate].
-  destruct (dropped_quiet _ _ _ _ _ DV) as [_ ->].
-  destruct (kill_tasks s3 ks) as [s4 ev4] eqn:K. cbn [app].
-  destruct (drain s4 ev4) as [[s5 x] y]. intros H; inversion H; subst.
-  intros HIn. apply in_app_or in HIn. destruct HIn as [HIn|HIn].
-  - eapply main_opened; eauto.
-  - apply in_app_or in HIn. destruct HIn as [HIn|HIn].
-    + exfalso. apply in_map_iff in HIn. destruct HIn as (z & E & _). discriminate.
-    + exfalso. eapply kill_tasks_ev; eauto.
-Qed.
-
-(* ------------------------------------------------------------------ Closed on disconnect / user close *)
-Lemma step_conn_closed c s h p k s' ev calls :
-  AInv s h -> conn s p = true -> ps s p = Some (Open k) ->
-  step c s (ConnClosed p) = Some (s', ev, calls) -> In (UClosed p) ev.
-Proof.
-  intros A C Hp. unfold step. cbn [main_handler]. rewrite C. unfold on_closed. setters. rewrite Hp.
-  erewrite (signal_open s h _ p k A Hp) by reflexivity.
-  match goal with |- context [drain ?a ?b] => destruct (drain a b) as [[s2 dr] ks] end.
-  destruct (dropped_validations s2 dr) as [[[s3 ev3] cl3]|]; [|discriminate].
-  destruct (kill_tasks s3 ks) as [s4 ev4].
-  destruct (drain s4 (ev3 ++ ev4)) as [[s5 x] y].
-  intros H; inversion H; subst. left; reflexivity.
-Qed.
-
-Lemma step_cmd_close c s h p k s' ev calls :
-  AInv s h -> ps s p = Some (Open k) ->
-  step c s (CmdClose p) = Some (s', ev, calls) -> In (UClosed p) ev.
-Proof.
-  intros A Hp. unfold step. cbn [main_handler].
-  assert (HO : hopen s p = true).
-  { destruct A as [_ _ _ _ A5 A6]. rewrite A6, A5, Hp. reflexivity. }
-  rewrite HO. unfold on_close. rewrite Hp.
-  erewrite (signal_open s h s p k A Hp) by reflexivity.
-  match goal with |- context [drain ?a ?b] => destruct (drain a b) as [[s2 dr] ks] end.
-  destruct (dropped_validations s2 dr) as [[[s3 ev3] cl3]|]; [|discriminate].
-  destruct (kill_tasks s3 ks) as [s4 ev4].
-  destruct (drain s4 (ev3 ++ ev4)) as [[s5 x] y].
-  intros H; inversion H; subst. left; reflexivity.
-Qed.
-
-(* ------------------------------------------------------------------ statements used by Properties.v *)
-Lemma alternation_prompt c ops :
-  forallb prompt_op ops = true ->
-  exists h, grammar (fun _ => false) (events (fst (run c init ops))) = Some h.
-Proof. intros P. eapply run_grammar; eauto. apply AInv_init. Qed.
-
-Lemma closed_on_disconnect_prompt c ops x p k s' ev calls :
-  forallb prompt_op ops = true -> In x (fst (run c init ops)) ->
-  conn (fst (fst x)) p = true -> ps (fst (fst x)) p = Some (Open k) ->
-  step c (fst (fst x)) (ConnClosed p) = Some (s', ev, calls) -> In (UClosed p) ev.
-Proof.
-  intros P HIn C Hp S. destruct (run_inv c ops init _ AInv_init P x HIn) as (h & A).
-  eapply step_conn_closed; eauto.
-Qed.
-
-Lemma closed_on_user_close_prompt c ops x p k s' ev calls :
-  forallb prompt_op ops = true -> In x (fst (run c init ops)) ->
-  ps (fst (fst x)) p = Some (Open k) ->
-  step c (fst (fst x)) (CmdClose p) = Some (s', ev, calls) -> In (UClosed p) ev.
-Proof.
-  intros P HIn Hp S. destruct (run_inv c ops init _ AInv_init P x HIn) as (h & A).
-  eapply step_cmd_close; eauto.
-Qed.
-
-(* witnesses *)
-Definition cfg_w : cfg := mkCfg true true (fun _ => false).
-Definition cfg_w0 : cfg := mkCfg false true (fun _ => false).
-Definition open_by_user : list op :=
-  [Established 0; CmdOpen 0; SubIn 0; HsIn 0 true; SubOut 0; HsIn 0 true; HsOut 0 true].
-Definition w_slow_close : list op :=
-  open_by_user ++ [Gate 0; CmdClose 0; SubIn 0; HsIn 0 true; Validate 0 true; HsIn 0 true; SubOut 0;
-                   HsOut 0 true; Release 0].
-Definition w_failed_sid : list op :=
-  [Established 0; SubIn 0; HsIn 0 true; Validate 0 true; OpenFail 0; CmdOpen 0].
-
-Definition last_state (c : cfg) (ops : list op) : st :=
-  last (map (fun x => fst (fst x)) (fst (run c init ops))) init.
-
-(* ================================================================== no stuck states *)
-Definition connected_state (x : option pstate) : bool :=
-  match x with None | Some Dialing | Some (VPending false) => false | _ => true end.
-Definition hsI_ok (x : option pstate) : bool :=
-  match x with Some (Validating _ _ (IReading | ISending)) => true | _ => false end.
-Definition hsO_ok (x : option pstate) : bool :=
-  match x with Some (Validating _ ONeg _) => true | _ => false end.
-Definition both_open (x : option pstate) : bool :=
-  match x with Some (Validating _ OOpen IOpen) => true | _ => false end.
-(* substream id the peer state waits for *)
-Definition wq (x : option pstate) : option sid :=
-  match x with
-  | Some (OutInit y) => Some y
-  | Some (Validating _ (OInit y) _) => Some y
-  | Some (Closed (Some y)) => Some y
-  | _ => None
-  end.
-
-(* per-peer part: connectivity, handshake-service membership and peer state agree *)
-Definition pok (cn hi ho : bool) (x : option pstate) : bool :=
-  Bool.eqb cn (connected_state x) && Bool.eqb hi (hsI_ok x) && Bool.eqb ho (hsO_ok x) && negb (both_open x).
-
-Definition SL (s : st) : Prop := forall p, pok (conn s p) (hsI s p) (hsO s p) (ps s p) = true.
-
-(* full case split of a handler equation M : handler ... = Some (s1, ev, cl) *)
-(* what a change of the task list may do: tasks keep their id and peer, tasks with other ids stay *)
-Definition tasks_sub (k : N) (old new : list task) : Prop :=
-  (forall t', In t' new -> exists t, In t old /\ t_id t' = t_id t /\ t_peer t' = t_peer t) /\
-  (forall t, In t old -> t_id t <> k -> In t new).
-
-Lemma tasks_sub_refl k l : tasks_sub k l l.
-Proof. split; eauto. Qed.
-
-Lemma tasks_sub_map k f l :
-  (forall t, t_id (f t) = t_id t /\ t_peer (f t) = t_peer t) -> tasks_sub k l (map_task k f l).
-Proof.
-  intros Hf. unfold map_task. split.
-  - intros t' H. apply in_map_iff in H. destruct H as (t & E & Ht). exists t. split; auto.
-    destruct (t_id t =? k); subst; auto.
-  - intros t Ht Hne. apply in_map_iff. exists t. split; auto.
-    destruct (t_id t =? k) eqn:E; auto. apply N.eqb_eq in E. contradiction.
-Qed.
-
-Lemma tasks_sub_remove k l : tasks_sub k l (remove_task k l).
-Proof.
-  split.
-  - intros t' H. apply in_remove in H. exists t'. tauto.
-  - intros t Ht Hne. apply in_remove. tauto.
-Qed.
-
-Lemma signal_core s k s' ev : signal s k = (s', ev) ->
-  exists l, s' = set_tasks s l /\ tasks_sub k (tasks s) l /\
-            (ev = [] \/ exists t, find_task k (tasks s) = Some t /\ ev = [UClosed (t_peer t)]).
-Proof.
-  unfold signal. destruct (find_task k (tasks s)) as [t|] eqn:F.
-  - destruct (t_closing t); [|destruct (t_gated t)]; intros H; injection H as <- <-.
-    + exists (tasks s). split; [destruct s; reflexivity|]. split; auto using tasks_sub_refl.
-    + eexists. split; [reflexivity|]. split; auto. apply tasks_sub_map. intros; auto.
-    + eexists. split; [reflexivity|]. split; eauto using tasks_sub_remove.
-  - intros H; injection H as <- <-. exists (tasks s). split; [destruct s; reflexivity|].
-    split; auto using tasks_sub_refl.
-Qed.
-
-Ltac setters_in M :=
-  cbn [ps pend hsI hsO hopen hval conn dead nsid spend tasks ntask lastt
-       set_ps set_pend set_hsI set_hsO set_hopen set_hval set_conn set_dead set_nsid set_spend set_tasks spawn_task] in M;
-  rewrite ?upd_same in M.
-
-(* full case split of handler equations in the context (innermost scrutinee first) *)
-Ltac split_all :=
-  repeat match goal with
-         | E : None = Some _ |- _ => discriminate E
-         | E : Some _ = None |- _ => discriminate E
-         | E : Some _ = Some _ |- _ => inversion E; subst; clear E
-         | E : (_, _) = (_, _) |- _ => inversion E; subst; clear E
-         | M : context [signal ?a ?k] |- _ =>
-             let Sg := fresh "Sg" in let tl := fresh "tl" in let ss := fresh "ss" in let se := fresh "se" in
-             destruct (signal a k) as [ss se] eqn:Sg; apply signal_core in Sg; destruct Sg as (tl & -> & ? & ?)
-         | M : context [match ?x with _ => _ end] |- _ =>
-             lazymatch x with
-             | context [match _ with _ => _ end] => fail
-             | _ => destruct x eqn:?; setters_in M
-             end
-         end.
-
-Ltac unfold_handlers M :=
-  cbn [main_handler] in M;
-  unfold on_established, on_open, on_closed, on_sub_out, on_sub_in, on_open_fail, on_dial_fail, on_close,
-         on_validation, on_hs_out_ok, on_hs_in_ok, on_hs_err, on_timer, hs_finish, svc_open, svc_force,
-         task_die_op, ok, ok_ev in M;
-  setters_in M.
-
-Ltac peer_facts H p :=
-  let K := fresh "K" in
-  pose proof (H p) as K; unfold pok in K;
-  repeat match goal with E : ps _ p = _ |- _ => rewrite E in K end;
-  repeat match goal with o : outb |- _ => destruct o end;
-  repeat match goal with i : inb |- _ => destruct i end;
-  repeat match goal with b : bool |- _ => destruct b end;
-  destruct (conn _ p) eqn:?, (hsI _ p) eqn:?, (hsO _ p) eqn:?; cbn in K; try discriminate K; try congruence.
-
-Ltac pf H := match goal with E : ps _ ?r = _ |- _ => solve [peer_facts H r; cbn in *; try discriminate; reflexivity] end.
-
-Ltac SL_close H :=
-  let q := fresh "q" in
-  intro q; setters; unfold upd;
-  repeat match goal with
-         | |- context [q =? ?p] =>
-             let E := fresh "E" in destruct (q =? p) eqn:E; [apply N.eqb_eq in E; subst q|]
-         end;
-  try apply H.
-
-Lemma SL_on_shutdown s p : SL s -> SL (on_shutdown s p).
-Proof.
-  intros H. unfold on_shutdown. destruct (ps s p) as [[]|] eqn:Hp; auto.
-  destruct (task_closed s k); auto. SL_close H. pf H.
-Qed.
-
-Lemma SL_main c s o s1 ev cl : SL s -> main_handler c s o = Some (s1, ev, cl) -> SL s1.
-Proof.
-  intros H M. destruct o; unfold_handlers M.
-  all: try (split_all; SL_close H; try pf H; fail).
-  - split_all; try (SL_close H; try pf H; fail). apply SL_on_shutdown. SL_close H.
-  - match type of M with context [finish_tasks ?a ?b] => destruct (finish_tasks a b) as [[? ?] ?] end.
-    split_all. unfold run_shutdowns. match goal with |- context [if ?b then _ else _] => destruct b end; [|apply SL_on_shutdown]; SL_close H.
-  - split_all; try (SL_close H; try pf H; fail). apply SL_on_shutdown. SL_close H.
-Qed.
-
-(* ---- substream-id bookkeeping: transport requests, pending_outbound and peer states agree ---- *)
-Definition SB (s : st) : Prop :=
-  (forall x q, In (x, q) (spend s) ->
-     x < nsid s /\ pend_find x (pend s) = Some q /\ wq (ps s q) = Some x) /\
-  (forall p x, wq (ps s p) = Some x -> x < nsid s /\ forall q, In (x, q) (spend s) -> q = p).
-
-Lemma in_pend_remove x y (q : peer) l : In (y, q) (pend_remove x l) <-> In (y, q) l /\ y <> x.
-Proof.
-  unfold pend_remove. rewrite filter_In. cbn. split; intros [A B]; split; auto.
-  - intros E. subst. rewrite N.eqb_refl in B. discriminate.
-  - destruct (y =? x) eqn:E; auto. apply N.eqb_eq in E. contradiction.
-Qed.
-
-Lemma in_drop_peer p y (q : peer) l : In (y, q) (drop_peer p l) <-> In (y, q) l /\ q <> p.
-Proof.
-  unfold drop_peer. rewrite filter_In. cbn. split; intros [A B]; split; auto.
-  - intros E. subst. rewrite N.eqb_refl in B. discriminate.
-  - destruct (q =? p) eqn:E; auto. apply N.eqb_eq in E. contradiction.
-Qed.
-
-Lemma pend_find_remove_other x y l : y <> x -> pend_find y (pend_remove x l) = pend_find y l.
-Proof.
-  intros H. induction l as [|[z q] l IH]; cbn; auto.
-  destruct (z =? x) eqn:E1; cbn.
-  - apply N.eqb_eq in E1. subst z. destruct (x =? y) eqn:E2; auto. apply N.eqb_eq in E2. congruence.
-  - destruct (z =? y); auto.
-Qed.
-
-Lemma pend_find_insert_same x p l : pend_find x (pend_insert x p l) = Some p.
-Proof. unfold pend_insert. cbn. now rewrite N.eqb_refl. Qed.
-
-Lemma pend_find_insert_other x y p l : y <> x -> pend_find y (pend_insert x p l) = pend_find y l.
-Proof.
-  intros H. unfold pend_insert. cbn. destruct (x =? y) eqn:E.
-  - apply N.eqb_eq in E. congruence.
-  - now apply pend_find_remove_other.
-Qed.
-
-Lemma pend_find_drop_peer p y q l : pend_find y l = Some q -> q <> p -> pend_find y (drop_peer p l) = Some q.
-Proof.
-  intros H Hq. induction l as [|[z r] l IH]; cbn in *; [discriminate|].
-  destruct (z =? y) eqn:E.
-  - inversion H; subst. destruct (q =? p) eqn:E2; cbn [negb].
-    + apply N.eqb_eq in E2. contradiction.
-    + cbn. now rewrite E.
-  - destruct (negb (r =? p)); cbn; auto. rewrite E. auto.
-Qed.
-
-Lemma first_req_in p l x : first_req p l = Some x -> In (x, p) l.
-Proof.
-  induction l as [|[y q] l IH]; cbn; [discriminate|].
-  destruct (q =? p) eqn:E.
-  - intros H; inversion H; subst. apply N.eqb_eq in E. subst. auto.
-  - auto.
-Qed.
-
-Definition ps_at (s s' : st) (p : peer) (v : option pstate) : Prop :=
-  forall q, ps s' q = if q =? p then v else ps s q.
-
-Lemma SB_q s s' :
-  SB s -> pend s' = pend s -> spend s' = spend s -> nsid s <= nsid s' ->
-  (forall q, wq (ps s' q) = wq (ps s q)) -> SB s'.
-Proof.
-  intros [B1 B2] P S N0 W. split; rewrite ?P, ?S.
-  - intros x q H. destruct (B1 x q H) as (A1 & A2 & A3). rewrite W. repeat split; auto. lia.
-  - intros p x H. rewrite W in H. destruct (B2 p x H). split; auto. lia.
-Qed.
-
-Lemma SB_reuse s s' p x v :
-  SB s -> wq (ps s p) = Some x -> ps_at s s' p v -> wq v = Some x ->
-  pend s' = pend_insert x p (pend s) -> spend s' = spend s -> nsid s' = nsid s -> SB s'.
-Proof.
-  intros [B1 B2] Wp PA Wv P S N0. split; rewrite ?P, ?S, ?N0.
-  - intros y q H. destruct (B1 y q H) as (A1 & A2 & A3). rewrite PA.
-    destruct (N.eq_dec y x) as [->|Hne].
-    + assert (q = p) by (eapply B2; eauto). subst q. rewrite N.eqb_refl, pend_find_insert_same. auto.
-    + rewrite pend_find_insert_other by auto. destruct (q =? p) eqn:E; auto.
-      apply N.eqb_eq in E. subst q. congruence.
-  - intros r y H. rewrite PA in H. destruct (r =? p) eqn:E.
-    + apply N.eqb_eq in E. subst r. rewrite Wv in H. inversion H; subst. apply B2; auto.
-    + apply B2; auto.
-Qed.
-
-Lemma SB_new s s' p v :
-  SB s -> wq (ps s p) = None -> ps_at s s' p v -> wq v = Some (nsid s) ->
-  pend s' = pend_insert (nsid s) p (pend s) -> spend s' = spend s ++ [(nsid s, p)] ->
-  nsid s' = nsid s + 1 -> SB s'.
-Proof.
-  intros [B1 B2] Wp PA Wv P S N0. split; rewrite ?P, ?S, ?N0.
-  - intros y q H. apply in_app_or in H. destruct H as [H|[H|[]]].
-    + destruct (B1 y q H) as (A1 & A2 & A3). rewrite PA.
-      rewrite pend_find_insert_other by lia. destruct (q =? p) eqn:E.
-      * apply N.eqb_eq in E. subst q. congruence.
-      * repeat split; auto. lia.
-    + inversion H; subst. rewrite PA, N.eqb_refl, pend_find_insert_same. repeat split; auto. lia.
-  - intros r y H. rewrite PA in H. destruct (r =? p) eqn:E.
-    + apply N.eqb_eq in E. subst r. rewrite Wv in H. inversion H; subst. split; [lia|].
-      intros q Hq. apply in_app_or in Hq. destruct Hq as [Hq|[Hq|[]]].
-      * destruct (B1 _ _ Hq). lia.
-      * inversion Hq; auto.
-    + destruct (B2 r y H) as [A1 A2]. split; [lia|].
-      intros q Hq. apply in_app_or in Hq. destruct Hq as [Hq|[Hq|[]]]; auto.
-      inversion Hq; subst. lia.
-Qed.
-
-Lemma SB_answer s s' p x v :
-  SB s -> In (x, p) (spend s) -> ps_at s s' p v -> (wq v = None \/ wq v = Some x) ->
-  pend s' = pend_remove x (pend s) -> spend s' = pend_remove x (spend s) -> nsid s' = nsid s -> SB s'.
-Proof.
-  intros [B1 B2] Hx PA Wv P S N0. destruct (B1 x p Hx) as (X1 & X2 & X3).
-  split; rewrite ?P, ?S, ?N0.
-  - intros y q H. apply in_pend_remove in H. destruct H as [H Hne].
-    destruct (B1 y q H) as (A1 & A2 & A3). rewrite PA, pend_find_remove_other by auto.
-    destruct (q =? p) eqn:E; auto. apply N.eqb_eq in E. subst q. congruence.
-  - intros r y H. rewrite PA in H. destruct (r =? p) eqn:E.
-    + apply N.eqb_eq in E. subst r. destruct Wv as [Wv|Wv]; rewrite Wv in H; [discriminate|].
-      inversion H; subst. split; auto. intros q Hq. apply in_pend_remove in Hq. tauto.
-    + destruct (B2 r y H) as [A1 A2]. split; auto.
-      intros q Hq. apply in_pend_remove in Hq. apply A2. tauto.
-Qed.
-
-Lemma SB_closed s s' p v :
-  SB s -> ps_at s s' p v -> wq v = None ->
-  pend s' = drop_peer p (pend s) -> spend s' = drop_peer p (spend s) -> nsid s' = nsid s -> SB s'.
-Proof.
-  intros [B1 B2] PA Wv P S N0. split; rewrite ?P, ?S, ?N0.
-  - intros y q H. apply in_drop_peer in H. destruct H as [H Hne].
-    destruct (B1 y q H) as (A1 & A2 & A3). rewrite PA.
-    apply N.eqb_neq in Hne. rewrite Hne. apply N.eqb_neq in Hne.
-    repeat split; auto. now apply pend_find_drop_peer.
-  - intros r y H. rewrite PA in H. destruct (r =? p) eqn:E.
-    + rewrite Wv in H. discriminate.
-    + destruct (B2 r y H) as [A1 A2]. split; auto.
-      intros q Hq. apply in_drop_peer in Hq. apply A2. tauto.
-Qed.
-
-Ltac wq_close :=
-  let q := fresh "q" in intro q; setters; unfold upd;
-  repeat (match goal with |- context [q =? ?p] => let E := fresh "E" in destruct (q =? p) eqn:E; [apply N.eqb_eq in E; subst q|] end);
-  try reflexivity; repeat match goal with E : ps _ _ = _ |- _ => rewrite E end;
-  repeat match goal with o : outb |- _ => destruct o end; try reflexivity.
-Ltac psat_close :=
-  let q := fresh "q" in intro q; setters; unfold upd;
-  repeat match goal with |- context [q =? ?p] => destruct (q =? p) end; reflexivity.
-Ltac wqp := repeat match goal with E : ps _ _ = _ |- _ => rewrite E end; reflexivity.
-Ltac SB_q_close B := eapply (SB_q _ _ B); [reflexivity | reflexivity | setters; lia | wq_close].
-Ltac SB_new_close B :=
-  match goal with |- context [spend ?s ++ [(nsid ?s, ?p)]] =>
-    eapply (SB_new s _ p _ B); [wqp | psat_close | reflexivity | reflexivity | reflexivity | reflexivity] end.
-Ltac SB_closed_close B :=
-  match goal with |- context [drop_peer ?p (spend ?s)] =>
-    eapply (SB_closed s _ p _ B); [psat_close | reflexivity | reflexivity | reflexivity | reflexivity] end.
-Ltac SB_reuse_close B :=
-  match goal with |- context [pend_insert ?y ?p (pend ?s)] =>
-    eapply (SB_reuse s _ p y _ B); [wqp | psat_close | reflexivity | reflexivity | reflexivity | reflexivity] end.
-Ltac same_peer B :=
-  match goal with
-  | Hf : first_req ?p (spend ?s) = Some ?x, Hq : pend_find ?x (pend ?s) = Some ?p0 |- _ =>
-      let K := fresh "K" in
-      pose proof (proj1 B x p (first_req_in _ _ _ Hf)) as K; destruct K as (_ & K & _);
-      rewrite Hq in K; injection K as K; subst p0
-  | _ => idtac
-  end;
-  match goal with
-  | Hf : first_req ?p (spend ?s) = Some ?x |- _ =>
-      let K := fresh "K" in
-      pose proof (proj1 B x p (first_req_in _ _ _ Hf)) as K; destruct K as (_ & _ & K);
-      repeat match goal with E : ps _ _ = _ |- _ => rewrite E in K end; cbn in K;
-      try discriminate K; try (injection K as K; subst)
-  | _ => idtac
-  end.
-Ltac SB_answer_close B :=
-  same_peer B;
-  match goal with Hf : first_req ?p (spend ?s) = Some ?x |- _ =>
-    eapply (SB_answer s _ p x _ B);
-    [apply first_req_in; exact Hf | psat_close | first [left; reflexivity | right; reflexivity]
-    | reflexivity | reflexivity | reflexivity] end.
-Ltac SB_close B := first [SB_q_close B | SB_new_close B | SB_closed_close B | SB_reuse_close B | SB_answer_close B].
-
-Lemma SB_on_shutdown s p : SB s -> SB (on_shutdown s p).
-Proof.
-  intros B. unfold on_shutdown. destruct (ps s p) as [[]|] eqn:Hp; auto.
-  destruct (task_closed s k); auto. SB_q_close B.
-Qed.
-
-Lemma SB_main c s o s1 ev cl : SB s -> main_handler c s o = Some (s1, ev, cl) -> SB s1.
-Proof.
-  intros B M. destruct o; unfold_handlers M.
-  all: try (split_all; try (SB_close B; fail); fail).
-  - split_all; try (SB_close B; fail). apply SB_on_shutdown. SB_q_close B.
-  - match type of M with context [finish_tasks ?a ?b] => destruct (finish_tasks a b) as [[? ?] ?] end.
-    split_all. unfold run_shutdowns. match goal with |- context [if ?b then _ else _] => destruct b end; [|apply SB_on_shutdown]; SB_q_close B.
-  - split_all; try (SB_close B; fail). apply SB_on_shutdown. SB_q_close B.
-Qed.
-
-Ltac sl_contra H := match goal with E : ps _ ?r = _ |- _ => solve [peer_facts H r] end.
-Ltac sb_contra B :=
-  match goal with
-  | Hf : first_req ?p (spend ?s) = Some ?x |- _ =>
-      let K := fresh "K" in let K2 := fresh "K2" in let K3 := fresh "K3" in
-      pose proof (proj1 B x p (first_req_in _ _ _ Hf)) as K; destruct K as (_ & K2 & K3);
-      try match goal with Hq : pend_find x (pend s) = _ |- _ => rewrite Hq in K2; try discriminate K2; injection K2 as K2; subst end;
-      repeat match goal with E : ps _ _ = _ |- _ => rewrite E in K3 end; cbn in K3;
-      try discriminate K3; try (injection K3 as K3; subst);
-      repeat match goal with E : context [?a =? ?a] |- _ => rewrite N.eqb_refl in E end;
-      cbn in *; try discriminate; try congruence
-  end.
-
-Lemma nostuck_main c s o : SL s -> SB s -> main_handler c s o <> None.
-Proof.
-  intros H B M. destruct o; unfold_handlers M.
-  all: try (split_all; first [sl_contra H | sb_contra B]; fail).
-  match type of M with context [finish_tasks ?a ?b] => destruct (finish_tasks a b) as [[? ?] ?] end.
-  discriminate M.
-Qed.
-
-(* ---- the rest of a step: user drain, dropped validations, killed tasks ---- *)
-Definition same_net (s s' : st) : Prop :=
-  ps s' = ps s /\ conn s' = conn s /\ hsI s' = hsI s /\ hsO s' = hsO s /\
-  pend s' = pend s /\ spend s' = spend s /\ nsid s' = nsid s.
-
-Lemma same_net_refl s : same_net s s.
-Proof. repeat split. Qed.
-
-Lemma SL_net s s' : same_net s s' -> SL s -> SL s'.
-Proof. intros (A & B & C & D & _) H p. rewrite A, B, C, D. apply H. Qed.
-
-Lemma SB_net s s' : same_net s s' -> SB s -> SB s'.
-Proof. intros (A & _ & _ & _ & E & F & G) [B1 B2]. split; rewrite ?A, ?E, ?F, ?G; auto. Qed.
-
-Lemma drain_net ev : forall s s' dr ks, drain s ev = (s', dr, ks) -> same_net s s'.
-Proof.
-  induction ev as [|e t IH]; intros s s' dr ks; cbn.
-  - intros H; injection H as <- _ _. apply same_net_refl.
-  - destruct e.
-    + destruct (hval s p).
-      * destruct (drain s t) as [[a b] c0] eqn:E. intros H; injection H as <- _ _. eapply IH; eauto.
-      * intros H. apply IH in H. exact H.
-    + intros H. apply IH in H. exact H.
-    + destruct (drain (set_hopen s p false) t) as [[a b] c0] eqn:E. intros H; injection H as <- _ _.
-      apply IH in E. exact E.
-    + intros H. eapply IH; eauto.
-    + intros H. eapply IH; eauto.
-Qed.
-
-Lemma SL_on_validation s p a s1 ev cl : SL s -> on_validation s p a = Some (s1, ev, cl) -> SL s1.
-Proof.
-  intros H M. unfold on_validation, svc_open, ok, ok_ev in M. setters_in M.
-  split_all; SL_close H; try pf H.
-Qed.
-
-Lemma SB_on_validation s p a s1 ev cl : SB s -> on_validation s p a = Some (s1, ev, cl) -> SB s1.
-Proof.
-  intros B M. unfold on_validation, svc_open, ok, ok_ev in M. setters_in M.
-  split_all; SB_close B.
-Qed.
-
-Lemma on_validation_some s p a : on_validation s p a <> None.
-Proof.
-  unfold on_validation, svc_open, ok, ok_ev. intros M. split_all.
-Qed.
-
-Lemma dropped_inv l : forall s, SL s -> SB s ->
-  exists s' ev cl, dropped_validations s l = Some (s', ev, cl) /\ SL s' /\ SB s'.
-Proof.
-  induction l as [|p l IH]; intros s H B; cbn.
-  - unfold ok. eauto 6.
-  - destruct (on_validation s p false) as [[[s1 e1] c1]|] eqn:E; [|now apply on_validation_some in E].
-    destruct (IH s1 (SL_on_validation _ _ _ _ _ _ H E) (SB_on_validation _ _ _ _ _ _ B E)) as (s2 & e2 & c2 & E2 & H2 & B2).
-    rewrite E2. eauto 6.
-Qed.
-
-Lemma task_dies_inv s k s' ev : task_dies s k = (s', ev) -> SL s -> SB s -> SL s' /\ SB s'.
+Lemma WT_reachable c s : reachable c s -> WT s.
 Proof.
-  unfold task_dies. destruct (find_task k (tasks s)) as [t|]; [|intros E; injection E as <- _; auto].
-  destruct (t_closing t); [intros E; injection E as <- _; auto|].
-  destruct (t_gated t); intros E; injection E as <- _; intros H B.
-  - split; [eapply SL_net; [|exact H]|eapply SB_net; [|exact B]]; repeat split.
-  - split; [apply SL_on_shutdown; eapply SL_net; [|exact H]|apply SB_on_shutdown; eapply SB_net; [|exact B]]; repeat split.
+  induction 1 as [|s o s' ev cl R W S].
+  - intros p V. discriminate V.
+  - eapply WT_step; eauto.
 Qed.
-
-Lemma kill_tasks_inv ks : forall s s' ev, kill_tasks s ks = (s', ev) -> SL s -> SB s -> SL s' /\ SB s'.
-Proof.
-  induction ks as [|k t IH]; intros s s' ev; cbn.
-  - intros E; injection E as <- _; auto.
-  - destruct (task_dies s k) as [s1 e1] eqn:E1. destruct (kill_tasks s1 t) as [s2 e2] eqn:E2.
-    intros E; injection E as <- _. intros H B.
-    destruct (task_dies_inv _ _ _ _ E1 H B). eapply IH; eauto.
-Qed.
-
-Definition SInv (s : st) : Prop := SL s /\ SB s.
-
-Lemma SInv_init : SInv init.
-Proof.
-  split.
-  - intros p. reflexivity.
-  - split; cbn; intros; try tauto; discriminate.
-Qed.
-
-Lemma step_SInv c s o : SInv s ->
-  exists s' ev cl, step c s o = Some (s', ev, cl) /\ SInv s'.
-Proof.
-  intros [H B]. unfold step.
-  destruct (main_handler c s o) as [[[s1 ev] calls]|] eqn:M; [|now apply nostuck_main in M].
-  pose proof (SL_main _ _ _ _ _ _ H M) as H1. pose proof (SB_main _ _ _ _ _ _ B M) as B1.
-  destruct (drain s1 ev) as [[s2 dr] ks] eqn:D. pose proof (drain_net _ _ _ _ _ D) as N2.
-  destruct (dropped_inv dr s2 (SL_net _ _ N2 H1) (SB_net _ _ N2 B1)) as (s3 & ev3 & cl3 & E3 & H3 & B3).
-  rewrite E3. destruct (kill_tasks s3 ks) as [s4 ev4] eqn:K.
-  destruct (kill_tasks_inv _ _ _ _ K H3 B3) as [H4 B4].
-  destruct (drain s4 (ev3 ++ ev4)) as [[s5 x] y] eqn:D5. pose proof (drain_net _ _ _ _ _ D5) as N5.
-  do 3 eexists. split; [reflexivity|]. split; [eapply SL_net|eapply SB_net]; eauto.
-Qed.
-
-Lemma run_nostuck c ops : forall s, SInv s -> snd (run c s ops) = true.
-Proof.
-  induction ops as [|o t IH]; intros s I; cbn; auto.
-  destruct (step_SInv c s o I) as (s1 & ev & cl & E & I1). rewrite E.
-  specialize (IH s1 I1). destruct (run c s1 t). exact IH.
-Qed.
-
-Lemma run_SInv c ops : forall s, SInv s -> forall x, In x (fst (run c s ops)) -> SInv (fst (fst x)).
-Proof.
-  induction ops as [|o t IH]; intros s I x; cbn; [intros []|].
-  destruct (step_SInv c s o I) as (s1 & ev & cl & E & I1). rewrite E.
-  specialize (IH s1 I1). destruct (run c s1 t) as [r b]. cbn in *. intros [<-|Hx]; auto.
-Qed.
-
-(* ---- tasks and peers: ids of Connection tasks identify the peer ---- *)
-Definition TInv (s : st) : Prop :=
-  (forall t, In t (tasks s) -> t_id t < ntask s) /\
-  (forall p k, ps s p = Some (Open k) \/ lastt s p = Some k ->
-     k < ntask s /\ forall t, In t (tasks s) -> t_id t = k -> t_peer t = p).
-
-Definition tasks_le (old new : list task) : Prop :=
-  forall t', In t' new -> exists t, In t old /\ t_id t' = t_id t /\ t_peer t' = t_peer t.
-
-Lemma TInv_sub s s' :
-  TInv s -> tasks_le (tasks s) (tasks s') -> ntask s' = ntask s -> lastt s' = lastt s ->
-  (forall q k, ps s' q = Some (Open k) -> ps s q = Some (Open k)) -> TInv s'.
-Proof.
-  intros [T1 T2] TL N0 L P. split; rewrite ?N0, ?L.
-  - intros t' H. destruct (TL t' H) as (t & Ht & E & _). rewrite E. auto.
-  - intros p k H. assert (H' : ps s p = Some (Open k) \/ lastt s p = Some k) by (destruct H; auto).
-    destruct (T2 p k H') as [A B]. split; auto.
-    intros t' Ht' Id. destruct (TL t' Ht') as (t & Ht & E1 & E2). rewrite E2. apply B; auto. congruence.
-Qed.
-
-Lemma TInv_spawn s s' p :
-  TInv s -> tasks s' = tasks s ++ [mkTask (ntask s) p None false] -> ntask s' = ntask s + 1 ->
-  (forall q, lastt s' q = if q =? p then Some (ntask s) else lastt s q) ->
-  (forall q k, ps s' q = Some (Open k) -> (q = p /\ k = ntask s) \/ ps s q = Some (Open k)) -> TInv s'.
-Proof.
-  intros [T1 T2] T N0 L P. split; rewrite ?T, ?N0.
-  - intros t H. apply in_app_or in H. destruct H as [H|[<-|[]]]; cbn; [apply T1 in H|]; lia.
-  - intros q k H.
-    assert (C : (q = p /\ k = ntask s) \/ (ps s q = Some (Open k) \/ lastt s q = Some k)).
-    { destruct H as [H|H].
-      - apply P in H. tauto.
-      - rewrite L in H. destruct (q =? p) eqn:E; [|tauto]. apply N.eqb_eq in E. inversion H. auto. }
-    destruct C as [[-> ->]|C].
-    + split; [lia|]. intros t Ht Id. apply in_app_or in Ht. destruct Ht as [Ht|[<-|[]]]; auto.
-      apply T1 in Ht. lia.
-    + destruct (T2 q k C) as [A B]. split; [lia|].
-      intros t Ht Id. apply in_app_or in Ht. destruct Ht as [Ht|[<-|[]]]; auto. cbn in Id. lia.
-Qed.
-
-Lemma tasks_le_refl l : tasks_le l l.
-Proof. intros t H. eauto. Qed.
-
-Lemma finish_tasks_le p l : forall l' ev n, finish_tasks p l = (l', ev, n) -> tasks_le l l'.
-Proof.
-  induction l as [|a l IH]; cbn; intros l' ev n.
-  - intros H; injection H as <- _ _. intros t [].
-  - destruct (finish_tasks p l) as [[r' e'] n'] eqn:E. specialize (IH _ _ _ eq_refl).
-    destruct ((t_peer a =? p) && negb (t_gated a)); [destruct (t_closing a)|];
-      intros H; injection H as <- _ _; intros t Ht.
-    + destruct (IH t Ht) as (t0 & A & B). exists t0. cbn. tauto.
-    + destruct Ht as [<-|Ht]; [exists a; cbn; auto|]. destruct (IH t Ht) as (t0 & A & B). exists t0. cbn. tauto.
-    + destruct Ht as [<-|Ht]; [exists a; cbn; auto|]. destruct (IH t Ht) as (t0 & A & B). exists t0. cbn. tauto.
-Qed.
-
-Ltac tle_close :=
-  first [ apply tasks_le_refl
-        | match goal with H : tasks_sub _ _ _ |- _ => exact (proj1 H) end
-        | exact (proj1 (tasks_sub_remove _ _))
-        | refine (proj1 (tasks_sub_map _ _ _ _)); intros; cbn; auto ].
-
-Ltac noopen_close :=
-  let q := fresh "q" in let k := fresh "k" in let E := fresh "E" in let X := fresh "X" in
-  intros q k; setters; unfold upd;
-  repeat match goal with |- context [q =? ?p] => destruct (q =? p) eqn:E; [apply N.eqb_eq in E; subst q|] end;
-  intros X; first [discriminate X | congruence | exact X].
-
-Ltac TInv_close T :=
-  eapply (TInv_sub _ _ T); [setters; tle_close | reflexivity | reflexivity | noopen_close].
-
-Lemma TInv_on_shutdown s p : TInv s -> TInv (on_shutdown s p).
-Proof.
-  intros T. unfold on_shutdown. destruct (ps s p) as [[]|] eqn:Hp; auto.
-  destruct (task_closed s k); auto. TInv_close T.
-Qed.
-
-Ltac TInv_spawn_close T :=
-  match goal with |- TInv (set_ps (spawn_task _ ?p) ?p _) =>
-    eapply (TInv_spawn _ _ p T); [reflexivity | reflexivity | intros q; setters; unfold upd; destruct (q =? p); reflexivity
-      | let q := fresh "q" in let k := fresh "k" in let E := fresh "E" in let X := fresh "X" in
-        intros q k; setters; unfold upd; destruct (q =? p) eqn:E;
-        [apply N.eqb_eq in E; subst q; intros X; left; split; [reflexivity|congruence] | intros X; right; exact X] ]
-  end.
-
-Lemma TInv_main c s o s1 ev cl : TInv s -> main_handler c s o = Some (s1, ev, cl) -> TInv s1.
-Proof.
-  intros T M. destruct o; unfold_handlers M.
-  all: try (split_all; try (first [TInv_close T | TInv_spawn_close T]; fail); fail).
-  - split_all; try (TInv_close T; fail). apply TInv_on_shutdown. TInv_close T.
-  - match type of M with context [finish_tasks ?a ?b] => destruct (finish_tasks a b) as [[l' e'] n'] eqn:F end.
-    apply finish_tasks_le in F. split_all.
-    assert (T1 : TInv (set_tasks s l')).
-    { eapply (TInv_sub _ _ T); [|reflexivity|reflexivity|noopen_close]. setters.
-      intros t' Ht'. destruct (F t' Ht') as (t & Ht & E1 & E2). apply in_map_iff in Ht.
-      destruct Ht as (t0 & E0 & Ht0). exists t0. split; auto.
-      destruct (t_peer t0 =? p); subst t; cbn in *; split; congruence. }
-    unfold run_shutdowns. match goal with |- context [if ?b then _ else _] => destruct b end; auto.
-    now apply TInv_on_shutdown.
-  - split_all; try (TInv_close T; fail). apply TInv_on_shutdown. TInv_close T.
-Qed.
-
-Definition same_tasks (s s' : st) : Prop :=
-  ps s' = ps s /\ tasks s' = tasks s /\ lastt s' = lastt s /\ ntask s' = ntask s.
-
-Lemma TInv_same s s' : same_tasks s s' -> TInv s -> TInv s'.
-Proof. intros (A & B & C & D) [T1 T2]. split; rewrite ?A, ?B, ?C, ?D; auto. Qed.
-
-Lemma drain_tasks ev : forall s s' dr ks, drain s ev = (s', dr, ks) -> same_tasks s s'.
-Proof.
-  induction ev as [|e t IH]; intros s s' dr ks; cbn.
-  - intros H; injection H as <- _ _. repeat split.
-  - destruct e.
-    + destruct (hval s p).
-      * destruct (drain s t) as [[a b] c0] eqn:E. intros H; injection H as <- _ _. eapply IH; eauto.
-      * intros H. apply IH in H. exact H.
-    + intros H. apply IH in H. exact H.
-    + destruct (drain (set_hopen s p false) t) as [[a b] c0] eqn:E. intros H; injection H as <- _ _.
-      apply IH in E. exact E.
-    + intros H. eapply IH; eauto.
-    + intros H. eapply IH; eauto.
-Qed.
-
-Lemma TInv_on_validation s p a s1 ev cl : TInv s -> on_validation s p a = Some (s1, ev, cl) -> TInv s1.
-Proof.
-  intros T M. unfold on_validation, svc_open, ok, ok_ev in M. setters_in M.
-  split_all; TInv_close T.
-Qed.
-
-Lemma dropped_TInv l : forall s s' ev cl, dropped_validations s l = Some (s', ev, cl) -> TInv s -> TInv s'.
-Proof.
-  induction l as [|p l IH]; intros s s' ev cl; cbn.
-  - intros H; injection H as <- _ _. auto.
-  - destruct (on_validation s p false) as [[[s1 e1] c1]|] eqn:E; [|discriminate].
-    destruct (dropped_validations s1 l) as [[[s2 e2] c2]|] eqn:E2; [|discriminate].
-    intros H; injection H as <- _ _. intros T. eapply IH; eauto. eapply TInv_on_validation; eauto.
-Qed.
-
-Lemma task_dies_TInv s k s' ev : task_dies s k = (s', ev) -> TInv s -> TInv s'.
-Proof.
-  unfold task_dies. destruct (find_task k (tasks s)) as [t|]; [|intros E; injection E as <- _; auto].
-  destruct (t_closing t); [intros E; injection E as <- _; auto|].
-  destruct (t_gated t); intros E; injection E as <- _; intros T.
-  - TInv_close T.
-  - apply TInv_on_shutdown. TInv_close T.
-Qed.
-
-Lemma kill_tasks_TInv ks : forall s s' ev, kill_tasks s ks = (s', ev) -> TInv s -> TInv s'.
-Proof.
-  induction ks as [|k t IH]; intros s s' ev; cbn.
-  - intros E; injection E as <- _; auto.
-  - destruct (task_dies s k) as [s1 e1] eqn:E1. destruct (kill_tasks s1 t) as [s2 e2] eqn:E2.
-    intros E; injection E as <- _. intros T. eapply IH; eauto. eapply task_dies_TInv; eauto.
-Qed.
-
-Lemma TInv_init : TInv init.
-Proof. split; cbn; intros; try tauto. destruct H; discriminate. Qed.
-
-Lemma step_TInv c s o s' ev cl : TInv s -> step c s o = Some (s', ev, cl) -> TInv s'.
-Proof.
-  intros T. unfold step.
-  destruct (main_handler c s o) as [[[s1 ev1] calls]|] eqn:M; [|discriminate].
-  pose proof (TInv_main _ _ _ _ _ _ T M) as T1.
-  destruct (drain s1 ev1) as [[s2 dr] ks] eqn:D. pose proof (TInv_same _ _ (drain_tasks _ _ _ _ _ D) T1) as T2.
-  destruct (dropped_validations s2 dr) as [[[s3 ev3] cl3]|] eqn:E3; [|discriminate].
-  pose proof (dropped_TInv _ _ _ _ _ E3 T2) as T3.
-  destruct (kill_tasks s3 ks) as [s4 ev4] eqn:K. pose proof (kill_tasks_TInv _ _ _ _ K T3) as T4.
-  destruct (drain s4 (ev3 ++ ev4)) as [[s5 x] y] eqn:D5.
-  intros H; injection H as <- _ _. eapply TInv_same; [eapply drain_tasks; eauto|auto].
-Qed.
-
-(* reachable states *)
-Inductive reachable (c : cfg) : st -> Prop :=
-| reach_init : reachable c init
-| reach_step s o s' ev cl : reachable c s -> step c s o = Some (s', ev, cl) -> reachable c s'.
-
-Lemma reachable_inv c s : reachable c s -> SInv s /\ TInv s.
-Proof.
-  induction 1 as [|s o s' ev cl R [I T] S].
-  - split; [apply SInv_init|apply TInv_init].
-  - split; [|eapply step_TInv; eauto].
-    destruct (step_SInv c s o I) as (s2 & e2 & c2 & E & I2). rewrite E in S. injection S as <- _ _. exact I2.
-Qed.
-
-Lemma run_reachable c ops : forall s, reachable c s ->
-  forall x, In x (fst (run c s ops)) -> reachable c (fst (fst x)).
-Proof.
-  induction ops as [|o t IH]; intros s R x; cbn; [intros []|].
-  destruct (step c s o) as [[[s1 ev] cl]|] eqn:E; [|intros []].
-  assert (R1 : reachable c s1) by (eapply reach_step; eauto).
-  specialize (IH s1 R1). destruct (run c s1 t) as [r b]. cbn in *. intros [<-|Hx]; auto.
-Qed.
-
-(* ================================================================== isolation between peers *)
-Definition uev_peer (e : uev) : peer :=
-  match e with UValidate p | UOpened p _ | UClosed p | UFail p _ | UNotif p => p end.
-Definition call_peer (c : call) : peer :=
-  match c with CDial p | COpen p _ | CForce p => p end.
-
-Definition iso_fields (s s' : st) (p : peer) : Prop :=
-  forall q, q <> p ->
-    ps s' q = ps s q /\ hsI s' q = hsI s q /\ hsO s' q = hsO s q /\ hopen s' q = hopen s q /\
-    hval s' q = hval s q /\ conn s' q = conn s q /\ dead s' q = dead s q /\ lastt s' q = lastt s q.
-Definition iso_spend (s s' : st) (p : peer) : Prop :=
-  forall q y, q <> p -> (In (y, q) (spend s') <-> In (y, q) (spend s)).
-Definition iso_out (p : peer) (ev : list uev) (cl : list call) : Prop :=
-  Forall (fun e => uev_peer e = p) ev /\ Forall (fun c => call_peer c = p) cl.
-Definition iso (s s' : st) (p : peer) (ev : list uev) (cl : list call) : Prop :=
-  iso_fields s s' p /\ iso_spend s s' p /\ iso_out p ev cl.
-
-Lemma iso_refl s p : iso s s p [] [].
-Proof. split; [|split]; [intros q Hq; repeat split | intros q y Hq; tauto | split; constructor]. Qed.
-
-Lemma iso_trans s s1 s2 p e1 c1 e2 c2 :
-  iso s s1 p e1 c1 -> iso s1 s2 p e2 c2 -> iso s s2 p (e1 ++ e2) (c1 ++ c2).
-Proof.
-  intros (F1 & S1 & O1 & O1') (F2 & S2 & O2 & O2'). split; [|split; [|split]].
-  - intros q Hq. destruct (F1 q Hq) as (A1 & A2 & A3 & A4 & A5 & A6 & A7 & A8).
-    destruct (F2 q Hq) as (B1 & B2 & B3 & B4 & B5 & B6 & B7 & B8).
-    repeat split; congruence.
-  - intros q y Hq. rewrite (S2 q y Hq). apply S1; auto.
-  - apply Forall_app; auto.
-  - apply Forall_app; auto.
-Qed.
-
-Lemma spend_owner s x p q : SB s -> In (x, q) (spend s) -> In (x, p) (spend s) -> q = p.
-Proof.
-  intros [B1 _] H1 H2. destruct (B1 _ _ H1) as (_ & A & _). destruct (B1 _ _ H2) as (_ & A' & _). congruence.
-Qed.
-
-Ltac isof_close := let q := fresh "q" in let Hq := fresh "Hq" in
-  intros q Hq; setters; rewrite ?upd_other by exact Hq; repeat split; reflexivity.
-Ltac isos_close B :=
-  let q := fresh "q" in let y := fresh "y" in let Hq := fresh "Hq" in
-  intros q y Hq; setters;
-  first [ tauto
-        | rewrite in_app_iff; cbn; split; [intros [?|[X|[]]]; auto; inversion X; congruence | auto]
-        | rewrite in_drop_peer; tauto
-        | rewrite in_pend_remove; split; [tauto|];
-          let H := fresh "H" in intros H; split; [exact H|];
-          intros ->;
-          match goal with Hf : first_req ?p (spend ?s) = Some ?x |- _ =>
-            apply Hq; eapply (spend_owner s x p q B); [exact H | apply first_req_in; exact Hf] end ].
-Ltac isoo_close := split; repeat match goal with |- context [if ?b then _ else _] => destruct b end; repeat constructor.
-Ltac iso_close B := split; [isof_close | split; [isos_close B | isoo_close]].
-
-Ltac sig_ev T :=
-  match goal with
-  | H0 : ?ev = [] \/ (exists t, find_task ?k _ = Some t /\ ?ev = [UClosed (t_peer t)]), Hp : ps ?s ?p = Some (Open ?k) |- _ =>
-      let t := fresh "t" in let F := fresh "F" in let In1 := fresh "In1" in let Id1 := fresh "Id1" in
-      destruct H0 as [->|(t & F & ->)];
-      [| setters; apply find_task_some in F; destruct F as [In1 Id1];
-         rewrite (proj2 (proj2 T p k (or_introl Hp)) t In1 Id1)]
-  end.
-
-Lemma iso_shutdown_after s s' p ev cl : iso s s' p ev cl -> iso s (on_shutdown s' p) p ev cl.
-Proof.
-  intros I. unfold on_shutdown. destruct (ps s' p) as [[]|]; auto.
-  destruct (task_closed s' k); auto.
-  destruct I as (F & S & O). split; [|split; auto].
-  intros q Hq. destruct (F q Hq) as (A1 & A2). setters. rewrite upd_other by exact Hq. split; auto.
-Qed.
-
-Lemma finish_tasks_evs p l : forall l' ev n, finish_tasks p l = (l', ev, n) -> Forall (fun e => uev_peer e = p) ev.
-Proof.
-  induction l as [|a l IH]; cbn; intros l' ev n.
-  - intros H; injection H as _ <- _. constructor.
-  - destruct (finish_tasks p l) as [[r' e'] n'] eqn:E. specialize (IH _ _ _ eq_refl).
-    destruct ((t_peer a =? p) && negb (t_gated a)); [destruct (t_closing a)|];
-      intros H; injection H as _ <- _; auto.
-Qed.
-
-Lemma iso_main c s o s1 ev cl :
-  SB s -> TInv s -> main_handler c s o = Some (s1, ev, cl) -> iso s s1 (op_peer o) ev cl.
-Proof.
-  intros B T M. destruct o; unfold_handlers M; cbn [op_peer].
-  all: try (split_all; same_peer B; try (iso_close B; fail); try (sig_ev T; iso_close B; fail);
-            try (apply iso_shutdown_after; iso_close B; fail); fail).
-  match type of M with context [finish_tasks ?a ?b] => destruct (finish_tasks a b) as [[l' e'] n'] eqn:F end.
-  apply finish_tasks_evs in F. split_all.
-  assert (I : iso s (set_tasks s l') p ev []) by (split; [isof_close | split; [isos_close B | split; [exact F|constructor]]]).
-  unfold run_shutdowns. match goal with |- context [if ?b then _ else _] => destruct b end; auto.
-  now apply iso_shutdown_after.
-Qed.
-
-Definition same_rest (s s' : st) : Prop :=
-  ps s' = ps s /\ pend s' = pend s /\ hsI s' = hsI s /\ hsO s' = hsO s /\ conn s' = conn s /\
-  dead s' = dead s /\ nsid s' = nsid s /\ spend s' = spend s /\ tasks s' = tasks s /\
-  ntask s' = ntask s /\ lastt s' = lastt s.
-
-Lemma drain_iso p ev : Forall (fun e => uev_peer e = p) ev -> forall s s' dr ks,
-  drain s ev = (s', dr, ks) ->
-  same_rest s s' /\ (forall q, q <> p -> hopen s' q = hopen s q /\ hval s' q = hval s q) /\
-  Forall (eq p) dr /\ (forall k, In k ks -> lastt s p = Some k).
-Proof.
-  induction 1 as [|e t He _ IH]; intros s s' dr ks; cbn.
-  - intros H; injection H as <- <- <-. repeat split; auto. intros k [].
-  - destruct e; cbn in He; subst p0.
-    + destruct (hval s p) eqn:HV.
-      * destruct (drain s t) as [[a b] c0] eqn:E. intros H; injection H as <- <- <-.
-        destruct (IH _ _ _ _ E) as (A & B & C & D). split; [exact A|split; [exact B|split; [constructor; auto|exact D]]].
-      * intros H. destruct (IH _ _ _ _ H) as (A & B & C & D). setters.
-        split; [exact A|]. split; [|split; auto].
-        intros q Hq. destruct (B q Hq) as [B1 B2]. rewrite upd_other in B2 by exact Hq. auto.
-    + intros H. destruct (IH _ _ _ _ H) as (A & B & C & D). setters.
-      split; [exact A|]. split; [|split; auto].
-      intros q Hq. destruct (B q Hq) as [B1 B2]. rewrite upd_other in B1 by exact Hq. auto.
-    + destruct (drain (set_hopen s p false) t) as [[a b] c0] eqn:E. intros H; injection H as <- <- <-.
-      destruct (IH _ _ _ _ E) as (A & B & C & D). setters.
-      split; [exact A|]. split; [|split; auto].
-      * intros q Hq. destruct (B q Hq) as [B1 B2]. rewrite upd_other in B1 by exact Hq. auto.
-      * intros k Hk. apply in_app_or in Hk. destruct Hk as [Hk|Hk]; auto.
-        destruct (hopen s p); [|destruct Hk]. destruct (lastt s p) as [k0|]; [|destruct Hk].
-        destruct (running s k0); [|destruct Hk]. destruct Hk as [<-|[]]. reflexivity.
-    + intros H. eapply IH; eauto.
-    + intros H. eapply IH; eauto.
-Qed.
-
-Lemma iso_of_drain s s' p :
-  same_rest s s' -> (forall q, q <> p -> hopen s' q = hopen s q /\ hval s' q = hval s q) -> iso s s' p [] [].
-Proof.
-  intros (A1 & A2 & A3 & A4 & A5 & A6 & A7 & A8 & A9 & A10 & A11) G. split; [|split].
-  - intros q Hq. destruct (G q Hq). rewrite A1, A3, A4, A5, A6, A11. repeat split; auto.
-  - intros q y Hq. rewrite A8. tauto.
-  - split; constructor.
-Qed.
-
-Lemma iso_on_validation s p a s1 ev cl : SB s -> on_validation s p a = Some (s1, ev, cl) -> iso s s1 p ev cl.
-Proof.
-  intros B M. unfold on_validation, svc_open, ok, ok_ev in M. setters_in M.
-  split_all; iso_close B.
-Qed.
-
-Lemma dropped_iso p l : Forall (eq p) l -> forall s s' ev cl,
-  SL s -> SB s -> dropped_validations s l = Some (s', ev, cl) -> iso s s' p ev cl.
-Proof.
-  induction 1 as [|q l <- _ IH]; intros s s' ev cl H B; cbn.
-  - intros E; injection E as <- <- <-. apply iso_refl.
-  - destruct (on_validation s p false) as [[[s1 e1] c1]|] eqn:E1; [|discriminate].
-    destruct (dropped_validations s1 l) as [[[s2 e2] c2]|] eqn:E2; [|discriminate].
-    intros E; injection E as <- <- <-.
-    eapply iso_trans; [eapply iso_on_validation; eauto|].
-    eapply IH; eauto using SL_on_validation, SB_on_validation.
-Qed.
-
-Lemma task_dies_iso s k p s' ev :
-  TInv s -> lastt s p = Some k -> task_dies s k = (s', ev) -> iso s s' p ev [].
-Proof.
-  intros T Lk. unfold task_dies. destruct (find_task k (tasks s)) as [t|] eqn:F;
-    [|intros E; injection E as <- <-; apply iso_refl].
-  destruct (find_task_some _ _ _ F) as [In1 Id1].
-  rewrite (proj2 (proj2 T p k (or_intror Lk)) t In1 Id1).
-  destruct (t_closing t); [intros E; injection E as <- <-; apply iso_refl|].
-  destruct (t_gated t); intros E; injection E as <- <-.
-  - split; [isof_close|split; [intros q y Hq; setters; tauto|split; constructor]].
-  - apply iso_shutdown_after. split; [isof_close|split; [intros q y Hq; setters; tauto|split; repeat constructor]].
-Qed.
-
-Lemma task_dies_lastt s k s' ev : task_dies s k = (s', ev) -> lastt s' = lastt s.
-Proof.
-  unfold task_dies. destruct (find_task k (tasks s)) as [t|]; [|intros E; injection E as <- _; auto].
-  destruct (t_closing t); [intros E; injection E as <- _; auto|].
-  destruct (t_gated t); intros E; injection E as <- _; auto.
-  unfold on_shutdown. match goal with |- context [match ?x with _ => _ end] => destruct x as [[]|] end; auto.
-  match goal with |- context [if ?x then _ else _] => destruct x end; auto.
-Qed.
-
-Lemma kill_tasks_iso p ks : forall s s' ev,
-  TInv s -> (forall k, In k ks -> lastt s p = Some k) -> kill_tasks s ks = (s', ev) -> iso s s' p ev [].
-Proof.
-  induction ks as [|k t IH]; intros s s' ev T L; cbn.
-  - intros E; injection E as <- <-. apply iso_refl.
-  - destruct (task_dies s k) as [s1 e1] eqn:E1. destruct (kill_tasks s1 t) as [s2 e2] eqn:E2.
-    intros E; injection E as <- <-.
-    change (@nil call) with (@nil call ++ []).
-    eapply iso_trans; [eapply task_dies_iso; eauto; apply L; left; reflexivity|].
-    eapply IH; eauto using task_dies_TInv.
-    intros k0 Hk. rewrite (task_dies_lastt _ _ _ _ E1). apply L. right. exact Hk.
-Qed.
-
-Lemma notifs_peer s o q : In q (notifs_of s o) -> q = op_peer o.
-Proof.
-  destruct o; cbn; try tauto;
-    (destruct (lastt s p) as [k|]; [|intros []]; destruct (running s k); [|intros []]; intros [<-|[]]; reflexivity).
-Qed.
-
-Lemma on_validation_lastt s p a s1 ev cl : on_validation s p a = Some (s1, ev, cl) -> lastt s1 = lastt s.
-Proof.
-  intros M. unfold on_validation, svc_open, ok, ok_ev in M. setters_in M. split_all; reflexivity.
-Qed.
-
-Lemma dropped_lastt l : forall s s' ev cl, dropped_validations s l = Some (s', ev, cl) -> lastt s' = lastt s.
-Proof.
-  induction l as [|p l IH]; intros s s' ev cl; cbn.
-  - intros E; injection E as <- _ _. reflexivity.
-  - destruct (on_validation s p false) as [[[s1 e1] c1]|] eqn:E1; [|discriminate].
-    destruct (dropped_validations s1 l) as [[[s2 e2] c2]|] eqn:E2; [|discriminate].
-    intros E; injection E as <- _ _. rewrite (IH _ _ _ _ E2). eapply on_validation_lastt; eauto.
-Qed.
-
-Definition isoS (s s' : st) (p : peer) : Prop := iso_fields s s' p /\ iso_spend s s' p.
-
-Lemma isoS_trans s s1 s2 p : isoS s s1 p -> isoS s1 s2 p -> isoS s s2 p.
-Proof.
-  intros [F1 S1] [F2 S2]. split.
-  - intros q Hq. destruct (F1 q Hq) as (A1 & A2 & A3 & A4 & A5 & A6 & A7 & A8).
-    destruct (F2 q Hq) as (B1 & B2 & B3 & B4 & B5 & B6 & B7 & B8). repeat split; congruence.
-  - intros q y Hq. rewrite (S2 q y Hq). apply S1; auto.
-Qed.
-
-Lemma step_iso c s o s' ev cl :
-  SInv s -> TInv s -> step c s o = Some (s', ev, cl) -> iso s s' (op_peer o) ev cl.
-Proof.
-  intros [H B] T. unfold step. set (p := op_peer o).
-  destruct (main_handler c s o) as [[[s1 ev1] cl1]|] eqn:M; [|discriminate].
-  destruct (iso_main _ _ _ _ _ _ B T M) as (F1 & S1 & O1 & C1). fold p in F1, S1, O1, C1.
-  pose proof (SL_main _ _ _ _ _ _ H M) as H1. pose proof (SB_main _ _ _ _ _ _ B M) as B1.
-  pose proof (TInv_main _ _ _ _ _ _ T M) as T1.
-  destruct (drain s1 ev1) as [[s2 dr] ks] eqn:D.
-  destruct (drain_iso p ev1 O1 _ _ _ _ D) as (R2 & G2 & DR & KS).
-  destruct (iso_of_drain _ _ p R2 G2) as (F2 & S2 & _).
-  pose proof (drain_net _ _ _ _ _ D) as N2. pose proof (drain_tasks _ _ _ _ _ D) as TS2.
-  pose proof (SL_net _ _ N2 H1) as H2. pose proof (SB_net _ _ N2 B1) as B2. pose proof (TInv_same _ _ TS2 T1) as T2.
-  destruct (dropped_validations s2 dr) as [[[s3 ev3] cl3]|] eqn:E3; [|discriminate].
-  destruct (dropped_iso p dr DR _ _ _ _ H2 B2 E3) as (F3 & S3 & O3 & C3).
-  pose proof (dropped_TInv _ _ _ _ _ E3 T2) as T3.
-  destruct (kill_tasks s3 ks) as [s4 ev4] eqn:K.
-  assert (KS3 : forall k, In k ks -> lastt s3 p = Some k).
-  { intros k Hk. rewrite (dropped_lastt _ _ _ _ _ E3). destruct R2 as (_ & _ & _ & _ & _ & _ & _ & _ & _ & _ & L2).
-    rewrite L2. auto. }
-  destruct (kill_tasks_iso p ks _ _ _ T3 KS3 K) as (F4 & S4 & O4 & _).
-  destruct (drain s4 (ev3 ++ ev4)) as [[s5 x] y] eqn:D5.
-  assert (O34 : Forall (fun e => uev_peer e = p) (ev3 ++ ev4)) by (apply Forall_app; auto).
-  destruct (drain_iso p (ev3 ++ ev4) O34 _ _ _ _ D5) as (R5 & G5 & _ & _).
-  destruct (iso_of_drain _ _ p R5 G5) as (F5 & S5 & _).
-  intros E; injection E as <- <- <-.
-  assert (ST : isoS s s5 p).
-  { eapply isoS_trans; [split; [exact F1|exact S1]|].
-    eapply isoS_trans; [split; [exact F2|exact S2]|].
-    eapply isoS_trans; [split; [exact F3|exact S3]|].
-    eapply isoS_trans; [split; [exact F4|exact S4]|]. split; [exact F5|exact S5]. }
-  destruct ST as [FF SS]. split; [exact FF|split; [exact SS|split]].
-  - repeat (apply Forall_app; split); auto.
-    apply Forall_forall. intros e He. apply in_map_iff in He. destruct He as (q & <- & Hq).
-    apply filter_In in Hq. cbn. apply (notifs_peer s o). tauto.
-  - apply Forall_app; auto.
-Qed.
-
-(* ================================================================== the accepted-inbound state has an origin *)
-Definition acc_inb (x : option pstate) : bool :=
-  match x with Some (Validating _ _ (ISending | IOpen)) => true | _ => false end.
-
-(* the two transitions that accept an inbound substream: the user's Accept for a substream that is
-   being validated, and the auto-accept branch (auto_accept configured and an outbound substream
-   already initiated) when the remote handshake has been read *)
-Definition is_accept (c : cfg) (s : st) (o : op) (p : peer) : bool :=
-  match o with
-  | Validate q true =>
-      (q =? p) && hval s p &&
-      match ps s p with Some (Validating _ _ IValidating) => true | _ => false end
-  | HsIn q true =>
-      (q =? p) && hsI s p && auto_accept c &&
-      match ps s p with Some (Validating _ ob IReading) => negb (o_closed ob) | _ => false end
-  | _ => false
-  end.
-
-Definition noacc (s s' : st) : Prop := forall q, acc_inb (ps s' q) = true -> acc_inb (ps s q) = true.
-
-Ltac acc_close :=
-  let q := fresh "q" in let A := fresh "A" in let N0 := fresh "N" in let E := fresh "E" in
-  intros q A N0; setters; unfold upd in A;
-  repeat match type of A with context [q =? ?p] => destruct (q =? p) eqn:E; [apply N.eqb_eq in E; subst q|] end;
-  try congruence; cbn in A; try discriminate A;
-  repeat match goal with E : ps _ _ = _ |- _ => rewrite E in N0 end; cbn in N0; try discriminate N0;
-  repeat match goal with E : _ && _ = true |- _ => apply andb_true_iff in E; destruct E end;
-  cbn [is_accept]; rewrite ?N.eqb_refl;
-  repeat match goal with E : _ = _ |- _ => rewrite E end; cbn; try reflexivity; try congruence.
-
-Lemma noacc_on_shutdown s p q : acc_inb (ps (on_shutdown s p) q) = true -> acc_inb (ps s q) = true.
-Proof.
-  unfold on_shutdown. destruct (ps s p) as [[]|] eqn:Hp; auto. destruct (task_closed s k); auto.
-  setters. unfold upd. destruct (q =? p); auto. discriminate.
-Qed.
-
-Lemma accept_main c s o s1 ev cl :
-  main_handler c s o = Some (s1, ev, cl) ->
-  forall q, acc_inb (ps s1 q) = true -> acc_inb (ps s q) = false -> is_accept c s o q = true.
-Proof.
-  intros M. destruct o; unfold_handlers M.
-  all: try (split_all; try (acc_close; fail); fail).
-  - split_all; try (acc_close; fail). intros q A N0. apply noacc_on_shutdown in A. setters. congruence.
-  - match type of M with context [finish_tasks ?a ?b] => destruct (finish_tasks a b) as [[l' e'] n'] end.
-    split_all. intros q A N0. unfold run_shutdowns in A.
-    match type of A with context [if ?b then _ else _] => destruct b end; [|apply noacc_on_shutdown in A]; setters; congruence.
-  - split_all; try (acc_close; fail). intros q A N0. apply noacc_on_shutdown in A. setters. congruence.
-Qed.
-
-Lemma noacc_on_validation s p s1 ev cl q :
-  on_validation s p false = Some (s1, ev, cl) -> acc_inb (ps s1 q) = true -> acc_inb (ps s q) = true.
-Proof.
-  intros M. unfold on_validation, svc_open, ok, ok_ev in M. setters_in M.
-  split_all; intros A; setters; unfold upd in A;
-    repeat match type of A with context [q =? ?r] => destruct (q =? r) end; auto; discriminate A.
-Qed.
-
-Lemma noacc_dropped l : forall s s' ev cl q,
-  dropped_validations s l = Some (s', ev, cl) -> acc_inb (ps s' q) = true -> acc_inb (ps s q) = true.
-Proof.
-  induction l as [|p l IH]; intros s s' ev cl q; cbn.
-  - intros E; injection E as <- _ _. auto.
-  - destruct (on_validation s p false) as [[[s1 e1] c1]|] eqn:E1; [|discriminate].
-    destruct (dropped_validations s1 l) as [[[s2 e2] c2]|] eqn:E2; [|discriminate].
-    intros E; injection E as <- _ _. intros A. eapply noacc_on_validation; eauto.
-Qed.
-
-Lemma noacc_task_dies s k s' ev q : task_dies s k = (s', ev) -> acc_inb (ps s' q) = true -> acc_inb (ps s q) = true.
-Proof.
-  unfold task_dies. destruct (find_task k (tasks s)) as [t|]; [|intros E; injection E as <- _; auto].
-  destruct (t_closing t); [intros E; injection E as <- _; auto|].
-  destruct (t_gated t); intros E; injection E as <- _; auto.
-  intros A. apply noacc_on_shutdown in A. exact A.
-Qed.
-
-Lemma noacc_kill ks : forall s s' ev q, kill_tasks s ks = (s', ev) -> acc_inb (ps s' q) = true -> acc_inb (ps s q) = true.
-Proof.
-  induction ks as [|k t IH]; intros s s' ev q; cbn.
-  - intros E; injection E as <- _; auto.
-  - destruct (task_dies s k) as [s1 e1] eqn:E1. destruct (kill_tasks s1 t) as [s2 e2] eqn:E2.
-    intros E; injection E as <- _. intros A. eapply noacc_task_dies; eauto.
-Qed.
-
-Lemma accept_step c s o s' ev cl q :
-  step c s o = Some (s', ev, cl) -> acc_inb (ps s' q) = true -> acc_inb (ps s q) = false ->
-  is_accept c s o q = true.
-Proof.
-  unfold step. destruct (main_handler c s o) as [[[s1 ev1] cl1]|] eqn:M; [|discriminate].
-  destruct (drain s1 ev1) as [[s2 dr] ks] eqn:D. pose proof (drain_tasks _ _ _ _ _ D) as (P2 & _).
-  destruct (dropped_validations s2 dr) as [[[s3 ev3] cl3]|] eqn:E3; [|discriminate].
-  destruct (kill_tasks s3 ks) as [s4 ev4] eqn:K.
-  destruct (drain s4 (ev3 ++ ev4)) as [[s5 x] y] eqn:D5. pose proof (drain_tasks _ _ _ _ _ D5) as (P5 & _).
-  intros E; injection E as <- _ _. rewrite P5. intros A N0.
-  eapply accept_main; eauto. rewrite <- P2.
-  eapply noacc_dropped; eauto. eapply noacc_kill; eauto.
-Qed.
-
-(* state after a list of events (None: stuck on the way) *)
-Fixpoint exec (c : cfg) (s : st) (l : list op) : option st :=
-  match l with
-  | [] => Some s
-  | o :: t => match step c s o with Some (s1, _, _) => exec c s1 t | None => None end
-  end.
-
-Lemma acc_history c p pre : forall s0 s,
-  exec c s0 pre = Some s -> acc_inb (ps s p) = true ->
-  acc_inb (ps s0 p) = true \/
-  exists pre1 a pre2 s1, pre = pre1 ++ a :: pre2 /\ exec c s0 pre1 = Some s1 /\ is_accept c s1 a p = true.
-Proof.
-  induction pre as [|a t IH]; intros s0 s; cbn.
-  - intros E; injection E as <-. auto.
-  - destruct (step c s0 a) as [[[s1 ev] cl]|] eqn:S; [|discriminate].
-    intros E A. destruct (IH _ _ E A) as [A1|(pre1 & b & pre2 & s2 & -> & E1 & Acc)].
-    + destruct (acc_inb (ps s0 p)) eqn:A0; auto. right.
-      exists [], a, t, s0. repeat split; auto. eapply accept_step; eauto.
-    + right. exists (a :: pre1), b, pre2, s2. repeat split; auto. cbn. now rewrite S.
-Qed.
-
-Lemma accepted_in_acc x d : accepted_in x d -> acc_inb x = true.
-Proof. intros [(i & -> & ->)|(o & -> & ->)]; reflexivity. Qed.
-
-Lemma inbound_needs_accept c pre s o s' ev cl p d :
-  exec c init pre = Some s -> step c s o = Some (s', ev, cl) -> In (UOpened p d) ev ->
-  exists pre1 a pre2 s1,
-    pre = pre1 ++ a :: pre2 /\ exec c init pre1 = Some s1 /\ is_accept c s1 a p = true.
-Proof.
-  intros E S HIn. pose proof (accepted_in_acc _ _ (step_opened _ _ _ _ _ _ _ _ S HIn)) as A.
-  destruct (acc_history c p pre init s E A) as [A0|X]; auto. discriminate A0.
-Qed.
-
-(* ================================================================== the open-request ledger *)
-Definition in_progress (x : option pstate) : bool :=
-  match x with
-  | Some (OutInit _) => true
-  | Some (Validating _ o _) => negb (o_closed o)
-  | _ => false
-  end.
-Definition is_answer (p : peer) (e : uev) : bool :=
-  match e with UOpened q _ | UFail q _ => q =? p | _ => false end.
-Definition has_answer (p : peer) (ev : list uev) : bool := existsb (is_answer p) ev.
-Definition has_validate (p : peer) (ev : list uev) : bool :=
-  existsb (fun e => match e with UValidate q => q =? p | _ => false end) ev.
-
-(* an open request the protocol takes up: the user's command passes the handle gate and finds the
-   peer connected with no negotiation in progress (PeerState::Closed, with or without a remembered
-   pending substream id) *)
-Definition request_accepted (s : st) (o : op) (p : peer) : bool :=
-  match o with
-  | CmdOpen q => (q =? p) && negb (hopen s p) &&
-                 match ps s p with Some (Closed _) => true | _ => false end
-  | _ => false
-  end.
-(* the user rejects the inbound substream of the peer that is being validated: by design this
-   discards an outbound attempt as well, without a report *)
-Definition user_reject (s : st) (o : op) (p : peer) : bool :=
-  match o with
-  | Validate q false => (q =? p) && hval s p &&
-                        match ps s p with Some (Validating _ _ IValidating) => true | _ => false end
-  | _ => false
-  end.
-
-Ltac leave_close :=
-  let q := fresh "q" in let A := fresh "A" in let N0 := fresh "N" in let E := fresh "E" in
-  intros q A N0; setters; unfold upd in N0;
-  repeat match type of N0 with context [q =? ?p] => destruct (q =? p) eqn:E; [apply N.eqb_eq in E; subst q|] end;
-  try congruence;
-  repeat match goal with E : ps _ _ = _ |- _ => rewrite E in A end; cbn in A; try discriminate A;
-  repeat match goal with o : outb |- _ => destruct o end; cbn in A, N0; try discriminate A; try discriminate N0;
-  repeat match goal with E : o_closed _ = _ |- _ => cbn in E; try discriminate E end;
-  cbn [has_answer existsb is_answer user_reject]; rewrite ?N.eqb_refl; cbn;
-  first [ left; reflexivity
-        | right; repeat match goal with E : _ = _ |- _ => rewrite E end; reflexivity ].
-
-Lemma inprog_on_shutdown s p q : in_progress (ps (on_shutdown s p) q) = in_progress (ps s q).
-Proof.
-  unfold on_shutdown. destruct (ps s p) as [[]|] eqn:Hp; auto. destruct (task_closed s k); auto.
-  setters. unfold upd. destruct (q =? p) eqn:E; auto. apply N.eqb_eq in E. subst q. now rewrite Hp.
-Qed.
-
-Lemma leave_main c s o s1 ev cl :
-  main_handler c s o = Some (s1, ev, cl) ->
-  forall q, in_progress (ps s q) = true -> in_progress (ps s1 q) = false ->
-            has_answer q ev = true \/ user_reject s o q = true.
-Proof.
-  intros M. destruct o; unfold_handlers M.
-  all: try (split_all; try (leave_close; fail); fail).
-  - split_all; try (leave_close; fail). intros q A N0. rewrite inprog_on_shutdown in N0. setters. congruence.
-  - match type of M with context [finish_tasks ?a ?b] => destruct (finish_tasks a b) as [[l' e'] n'] end.
-    split_all. intros q A N0. unfold run_shutdowns in N0.
-    match type of N0 with context [if ?b then _ else _] => destruct b end; [|rewrite inprog_on_shutdown in N0]; setters; congruence.
-  - split_all; try (leave_close; fail). intros q A N0. rewrite inprog_on_shutdown in N0. setters. congruence.
-Qed.
-
-(* no kept failed id (outside finding class 2): every substream id a peer state waits for is owed by the transport *)
-Definition B3 (s : st) : Prop := forall p x, wq (ps s p) = Some x -> In (x, p) (spend s).
-
-Definition class2_step (s : st) (o : op) : bool :=
-  match o with
-  | OpenFail p =>
-      conn s p &&
-      match first_req p (spend s) with
-      | Some _ => match ps s p with Some (Validating _ (OInit _) _) => true | _ => false end
-      | None => false
-      end
-  | _ => false
-  end.
-
-Lemma B3_mono s s' :
-  B3 s -> (forall q x, wq (ps s' q) = Some x -> wq (ps s q) = Some x) ->
-  (forall e, In e (spend s) -> In e (spend s')) -> B3 s'.
-Proof. intros B W S p x H. apply S, B, W, H. Qed.
-
-Lemma B3_new s s' p v :
-  B3 s -> ps_at s s' p v -> wq v = Some (nsid s) -> spend s' = spend s ++ [(nsid s, p)] -> B3 s'.
-Proof.
-  intros B PA Wv S q x H. rewrite S. apply in_or_app. rewrite PA in H. destruct (q =? p) eqn:E.
-  - apply N.eqb_eq in E. subst q. rewrite Wv in H. injection H as <-. right. left. reflexivity.
-  - left. auto.
-Qed.
-
-Lemma B3_answer s s' p x v :
-  B3 s -> SB s -> In (x, p) (spend s) -> ps_at s s' p v -> wq v = None ->
-  spend s' = pend_remove x (spend s) -> B3 s'.
-Proof.
-  intros B SBs Hx PA Wv S q y H. rewrite S. rewrite PA in H. destruct (q =? p) eqn:E.
-  - rewrite Wv in H. discriminate.
-  - apply in_pend_remove. split; auto. intros ->. apply N.eqb_neq in E. apply E.
-    eapply spend_owner; eauto.
-Qed.
-
-Lemma B3_closed s s' p v :
-  B3 s -> ps_at s s' p v -> wq v = None -> spend s' = drop_peer p (spend s) -> B3 s'.
-Proof.
-  intros B PA Wv S q y H. rewrite S. rewrite PA in H. destruct (q =? p) eqn:E.
-  - rewrite Wv in H. discriminate.
-  - apply in_drop_peer. split; auto. now apply N.eqb_neq.
-Qed.
-
-Ltac wq_mono_close :=
-  let q := fresh "q" in let x := fresh "x" in let E := fresh "E" in let X := fresh "X" in
-  intros q x; setters; unfold upd;
-  repeat (match goal with |- context [q =? ?p] => destruct (q =? p) eqn:E; [apply N.eqb_eq in E; subst q|] end);
-  repeat match goal with E : ps _ _ = _ |- _ => rewrite E end;
-  repeat match goal with o : outb |- _ => destruct o end; cbn; intros X; first [exact X | discriminate X | congruence].
-Ltac B3_mono_close B := eapply (B3_mono _ _ B); [wq_mono_close | setters; intros e He; first [exact He | apply in_or_app; left; exact He]].
-Ltac B3_new_close B :=
-  match goal with |- context [spend ?s ++ [(nsid ?s, ?p)]] =>
-    eapply (B3_new s _ p _ B); [psat_close | reflexivity | reflexivity] end.
-Ltac B3_closed_close B :=
-  match goal with |- context [drop_peer ?p (spend ?s)] =>
-    eapply (B3_closed s _ p _ B); [psat_close | reflexivity | reflexivity] end.
-Ltac B3_answer_close B SBs :=
-  same_peer SBs;
-  match goal with Hf : first_req ?p (spend ?s) = Some ?x |- _ =>
-    eapply (B3_answer s _ p x _ B SBs); [apply first_req_in; exact Hf | psat_close | reflexivity | reflexivity] end.
-Ltac class2_contra C2 :=
-  exfalso; unfold class2_step in C2;
-  repeat match goal with E : _ = _ |- _ => tryif constr_eq E C2 then fail else rewrite E in C2 end; cbn in C2; discriminate C2.
-Ltac B3_close B SBs C2 :=
-  first [B3_mono_close B | B3_new_close B | B3_closed_close B | B3_answer_close B SBs | (same_peer SBs; class2_contra C2)].
-
-Lemma B3_on_shutdown s p : B3 s -> B3 (on_shutdown s p).
-Proof.
-  intros B. unfold on_shutdown. destruct (ps s p) as [[]|] eqn:Hp; auto.
-  destruct (task_closed s k); auto. B3_mono_close B.
-Qed.
-
-Lemma B3_main c s o s1 ev cl :
-  B3 s -> SB s -> class2_step s o = false -> main_handler c s o = Some (s1, ev, cl) -> B3 s1.
-Proof.
-  intros B SBs C2 M. destruct o; unfold_handlers M.
-  all: try (split_all; try (B3_close B SBs C2; fail); fail).
-  - split_all; try (B3_close B SBs C2; fail). apply B3_on_shutdown. B3_mono_close B.
-  - match type of M with context [finish_tasks ?a ?b] => destruct (finish_tasks a b) as [[l' e'] n'] end.
-    split_all. unfold run_shutdowns. match goal with |- context [if ?b then _ else _] => destruct b end; [|apply B3_on_shutdown]; B3_mono_close B.
-  - split_all; try (B3_close B SBs C2; fail). apply B3_on_shutdown. B3_mono_close B.
-Qed.
-
-(* no replaced validation: a substream that is being validated has its request at the handle *)
-Definition val_state (x : option pstate) : bool :=
-  match x with Some (Validating _ _ IValidating) => true | _ => false end.
-Definition L3 (s : st) : Prop := forall p, val_state (ps s p) = true -> hval s p = true.
-
-Ltac L3_close L :=
-  let q := fresh "q" in let V := fresh "V" in let E := fresh "E" in
-  intros q V; setters; unfold upd in *;
-  repeat match goal with
-         | _ : context [q =? ?p] |- _ => destruct (q =? p) eqn:E; [apply N.eqb_eq in E; subst q|]
-         | |- context [q =? ?p] => destruct (q =? p) eqn:E; [apply N.eqb_eq in E; subst q|]
-         end;
-  cbn in V; try discriminate V;
-  try (repeat match goal with E : ps _ _ = _ |- _ => rewrite E in V end; cbn in V; discriminate V);
-  first [ left; apply L; repeat match goal with E : ps _ _ = _ |- _ => rewrite E end; first [exact V | reflexivity]
-        | right; cbn; rewrite ?N.eqb_refl; reflexivity ].
-
-Lemma val_on_shutdown s p q : val_state (ps (on_shutdown s p) q) = true -> val_state (ps s q) = true.
-Proof.
-  unfold on_shutdown. destruct (ps s p) as [[]|] eqn:Hp; auto. destruct (task_closed s k); auto.
-  setters. unfold upd. destruct (q =? p); auto. discriminate.
-Qed.
-
-Lemma hval_on_shutdown s p : hval (on_shutdown s p) = hval s.
-Proof.
-  unfold on_shutdown. destruct (ps s p) as [[]|]; auto. destruct (task_closed s k); auto.
-Qed.
-
-Lemma L3_main c s o s1 ev cl :
-  L3 s -> main_handler c s o = Some (s1, ev, cl) ->
-  forall q, val_state (ps s1 q) = true -> hval s1 q = true \/ has_validate q ev = true.
-Proof.
-  intros L M. destruct o; unfold_handlers M.
-  all: try (split_all; try (L3_close L; fail); fail).
-  - split_all; try (L3_close L; fail). intros q V. apply val_on_shutdown in V. rewrite hval_on_shutdown. left. apply L, V.
-  - match type of M with context [finish_tasks ?a ?b] => destruct (finish_tasks a b) as [[l' e'] n'] end.
-    split_all. intros q V. unfold run_shutdowns in *.
-    match goal with |- context [if ?b then _ else _] => destruct b end;
-      [|apply val_on_shutdown in V; rewrite hval_on_shutdown]; left; apply L, V.
-  - split_all; try (L3_close L; fail). intros q V. apply val_on_shutdown in V. rewrite hval_on_shutdown. left. apply L, V.
-Qed.
-
-Lemma request_main c s o p s1 ev cl :
-  request_accepted s o p = true -> main_handler c s o = Some (s1, ev, cl) ->
-  has_answer p ev = true \/ in_progress (ps s1 p) = true.
-Proof.
-  destruct o; cbn [request_accepted]; try discriminate.
-  intros R. apply andb_true_iff in R. destruct R as [R R3]. apply andb_true_iff in R. destruct R as [R1 R2].
-  apply N.eqb_eq in R1. subst p0. apply negb_true_iff in R2.
-  destruct (ps s p) as [[| |po| | | |]|] eqn:Hp; try discriminate R3.
-  cbn [main_handler]. rewrite R2. unfold on_open. rewrite Hp. destruct po as [y|].
-  - unfold ok. intros M; injection M as <- <- <-. setters. rewrite upd_same. auto.
-  - unfold svc_open.
-    destruct (conn s p); [destruct (dead s p)|]; intros M; injection M as <- <- <-; setters; rewrite ?upd_same; cbn;
-      rewrite ?N.eqb_refl; auto.
-Qed.
-
-Definition answers (p : peer) (ev : list uev) : list uev := filter (is_answer p) ev.
-
-Lemma finish_tasks_noans p l q : forall l' ev n, finish_tasks p l = (l', ev, n) -> answers q ev = [].
-Proof.
-  induction l as [|a l IH]; cbn; intros l' ev n.
-  - intros H; injection H as _ <- _. reflexivity.
-  - destruct (finish_tasks p l) as [[r' e'] n'] eqn:E. specialize (IH _ _ _ eq_refl).
-    destruct ((t_peer a =? p) && negb (t_gated a)); [destruct (t_closing a)|];
-      intros H; injection H as _ <- _; auto.
-Qed.
-
-Ltac ans_close :=
-  let q := fresh "q" in intros q;
-  try match goal with
-      | H0 : ?ev = [] \/ (exists t, _ /\ ?ev = [UClosed _]) |- _ => destruct H0 as [->|(? & ? & ->)]
-      end;
-  unfold answers; cbn [filter is_answer];
-  repeat match goal with |- context [if ?b then _ else _] => destruct b end; cbn; lia.
-
-Lemma answers_main c s o s1 ev cl :
-  main_handler c s o = Some (s1, ev, cl) -> forall q, (length (answers q ev) <= 1)%nat.
-Proof.
-  intros M. destruct o; unfold_handlers M.
-  all: try (split_all; ans_close; fail).
-  match type of M with context [finish_tasks ?a ?b] => destruct (finish_tasks a b) as [[l' e'] n'] eqn:F end.
-  split_all. intros q. rewrite (finish_tasks_noans _ _ q _ _ _ F). cbn. lia.
-Qed.
-
-(* what the protocol still expects from its environment for the outbound half of peer p *)
-Definition obligation (s : st) (p : peer) : bool :=
-  match ps s p with
-  | Some (OutInit x) | Some (Validating _ (OInit x) _) =>
-      existsb (fun e => (fst e =? x) && (snd e =? p)) (spend s)     (* the transport owes the substream *)
-  | Some (Validating _ ONeg _) => hsO s p                             (* the handshake service owes an event *)
-  | Some (Validating _ OOpen IClosed) => true                         (* remote's substream or the 5 s timer *)
-  | Some (Validating _ OOpen (IReading | ISending)) => hsI s p
-  | Some (Validating _ OOpen IValidating) => hval s p                 (* the user owes a validation result *)
-  | _ => false
-  end.
-
-Lemma existsb_spend x p l : In (x, p) l -> existsb (fun e : sid * peer => (fst e =? x) && (snd e =? p)) l = true.
-Proof.
-  intros H. apply existsb_exists. exists (x, p). split; auto. cbn. now rewrite !N.eqb_refl.
-Qed.
-
-Lemma obligation_ok s p : SL s -> B3 s -> L3 s -> in_progress (ps s p) = true -> obligation s p = true.
-Proof.
-  intros H B L I. pose proof (H p) as K. pose proof (B p) as Bp. pose proof (L p) as Lp.
-  unfold obligation, pok in *. destruct (ps s p) as [[|b|po| |y|d o i|k]|]; try discriminate I.
-  - apply existsb_spend, Bp. reflexivity.
-  - destruct o; try discriminate I.
-    + apply existsb_spend, Bp. reflexivity.
-    + destruct (conn s p), (hsI s p), (hsO s p), i; cbn in K; try discriminate K; reflexivity.
-    + destruct i; try reflexivity;
-        try (destruct (conn s p), (hsI s p), (hsO s p); cbn in K; try discriminate K; reflexivity).
-      apply Lp. reflexivity.
-Qed.
-
-Definition drops (c : cfg) (s : st) (o : op) : list peer :=
-  match main_handler c s o with
-  | Some (s1, ev, _) => snd (fst (drain s1 ev))
-  | None => []
-  end.
-
-Lemma drain_hval_mono ev : forall s s' dr ks p, drain s ev = (s', dr, ks) -> hval s p = true -> hval s' p = true.
-Proof.
-  induction ev as [|e t IH]; intros s s' dr ks p; cbn.
-  - intros H; injection H as <- _ _. auto.
-  - destruct e.
-    + destruct (hval s p0) eqn:HV.
-      * destruct (drain s t) as [[a b] c0] eqn:E. intros H; injection H as <- _ _. eapply IH; eauto.
-      * intros H A. eapply (IH _ _ _ _ _ H). setters. unfold upd. destruct (p =? p0); auto.
-    + intros H A. eapply (IH _ _ _ _ _ H). exact A.
-    + destruct (drain (set_hopen s p0 false) t) as [[a b] c0] eqn:E. intros H; injection H as <- _ _.
-      intros A. eapply (IH _ _ _ _ _ E). exact A.
-    + intros H. eapply IH; eauto.
-    + intros H. eapply IH; eauto.
-Qed.
-
-Lemma drain_sets ev : forall s s' dr ks p, drain s ev = (s', dr, ks) -> has_validate p ev = true -> hval s' p = true.
-Proof.
-  induction ev as [|e t IH]; intros s s' dr ks p; cbn; [discriminate|].
-  destruct e; cbn.
-  - destruct (p0 =? p) eqn:E; cbn.
-    + apply N.eqb_eq in E. subst p0. destruct (hval s p) eqn:HV.
-      * destruct (drain s t) as [[a b] c0] eqn:D. intros H; injection H as <- _ _. intros _.
-        eapply drain_hval_mono; eauto.
-      * intros H _. eapply (drain_hval_mono _ _ _ _ _ _ H). setters. apply upd_same.
-    + destruct (hval s p0).
-      * destruct (drain s t) as [[a b] c0] eqn:D. intros H; injection H as <- _ _. eapply IH; eauto.
-      * intros H. eapply (IH _ _ _ _ _ H).
-  - intros H. eapply (IH _ _ _ _ _ H).
-  - destruct (drain (set_hopen s p0 false) t) as [[a b] c0] eqn:D. intros H; injection H as <- _ _. eapply (IH _ _ _ _ _ D).
-  - intros H. eapply IH; eauto.
-  - intros H. eapply IH; eauto.
-Qed.
-
-Lemma task_dies_ledger s k s' ev :
-  task_dies s k = (s', ev) ->
-  (forall q, in_progress (ps s' q) = in_progress (ps s q)) /\ (B3 s -> B3 s') /\ (L3 s -> L3 s') /\
-  (forall q, answers q ev = []).
-Proof.
-  unfold task_dies. destruct (find_task k (tasks s)) as [t|]; [|intros E; injection E as <- <-; auto].
-  destruct (t_closing t); [intros E; injection E as <- <-; auto|].
-  destruct (t_gated t); intros E; injection E as <- <-.
-  - repeat split; auto.
-  - repeat split; auto.
-    + intros q. now rewrite inprog_on_shutdown.
-    + intros B. apply B3_on_shutdown. exact B.
-    + intros L q V. apply val_on_shutdown in V. rewrite hval_on_shutdown. apply L, V.
-Qed.
-
-Lemma kill_tasks_ledger ks : forall s s' ev,
-  kill_tasks s ks = (s', ev) ->
-  (forall q, in_progress (ps s' q) = in_progress (ps s q)) /\ (B3 s -> B3 s') /\ (L3 s -> L3 s') /\
-  (forall q, answers q ev = []).
-Proof.
-  induction ks as [|k t IH]; intros s s' ev; cbn.
-  - intros E; injection E as <- <-; auto.
-  - destruct (task_dies s k) as [s1 e1] eqn:E1. destruct (kill_tasks s1 t) as [s2 e2] eqn:E2.
-    intros E; injection E as <- <-.
-    destruct (task_dies_ledger _ _ _ _ E1) as (A1 & A2 & A3 & A4).
-    destruct (IH _ _ _ E2) as (C1 & C2 & C3 & C4).
-    repeat split; auto.
-    + intros q. now rewrite C1.
-    + intros q. unfold answers in *. rewrite filter_app, A4, C4. reflexivity.
-Qed.
-
-Lemma answers_nil_has q ev : answers q ev = [] -> has_answer q ev = false.
-Proof.
-  unfold answers, has_answer. induction ev as [|e t IH]; cbn; auto.
-  destruct (is_answer q e); [discriminate|auto].
-Qed.
-
-Lemma has_answer_app q a b : has_answer q (a ++ b) = has_answer q a || has_answer q b.
-Proof. apply existsb_app. Qed.
-
-Lemma has_answer_notifs q l : has_answer q (map UNotif l) = false.
-Proof. induction l; cbn; auto. Qed.
-
-(* the ledger: a request the protocol took up is owed an answer until NotificationStreamOpened or
-   NotificationStreamOpenFailure for the peer is reported (or the user rejects the peer's inbound
-   substream, which discards the outbound attempt by design) *)
-Definition owed_next (s : st) (o : op) (ev : list uev) (owed : peer -> bool) : peer -> bool :=
-  fun p => if has_answer p ev then false
-           else if request_accepted s o p then true
-           else if user_reject s o p then false else owed p.
-
-Record LInv (s : st) (owed : peer -> bool) : Prop := mkLInv {
-  l_owed : forall p, owed p = true -> in_progress (ps s p) = true;
-  l_b3 : B3 s;
-  l_l3 : L3 s
-}.
-
-Lemma B3_same s s' : ps s' = ps s -> spend s' = spend s -> B3 s -> B3 s'.
-Proof. intros P S B p x. rewrite P, S. apply B. Qed.
-
-Lemma step_ledger c s o owed s' ev cl :
-  SInv s -> LInv s owed -> class2_step s o = false -> drops c s o = [] ->
-  step c s o = Some (s', ev, cl) -> LInv s' (owed_next s o ev owed).
-Proof.
-  intros [H B] [L1 LB L3s] C2 D0. unfold step, drops in *.
-  destruct (main_handler c s o) as [[[s1 ev1] cl1]|] eqn:M; [|discriminate].
-  destruct (drain s1 ev1) as [[s2 dr] ks] eqn:D. cbn in D0. subst dr.
-  cbn [dropped_validations ok]. destruct (kill_tasks s2 ks) as [s4 ev4] eqn:K. cbn [app].
-  destruct (drain s4 ev4) as [[s5 x] y] eqn:D5.
-  intros E; injection E as <- <- <-.
-  pose proof (drain_tasks _ _ _ _ _ D) as (P2 & _). pose proof (drain_net _ _ _ _ _ D) as (_ & _ & _ & _ & _ & S2 & _).
-  pose proof (drain_tasks _ _ _ _ _ D5) as (P5 & _). pose proof (drain_net _ _ _ _ _ D5) as (_ & _ & _ & _ & _ & S5 & _).
-  destruct (kill_tasks_ledger _ _ _ _ K) as (KI & KB & KL & KA).
-  assert (IP : forall q, in_progress (ps s5 q) = in_progress (ps s1 q)) by (intros q; rewrite P5, KI, P2; reflexivity).
-  assert (HA : forall q, has_answer q (ev1 ++ map UNotif (filter (hopen s2) (notifs_of s o)) ++ ev4) = has_answer q ev1).
-  { intros q. rewrite !has_answer_app, has_answer_notifs, (answers_nil_has _ _ (KA q)). now rewrite !orb_false_r. }
-  constructor.
-  - intros p. unfold owed_next. rewrite HA, IP.
-    destruct (has_answer p ev1) eqn:A1; [discriminate|].
-    destruct (request_accepted s o p) eqn:R.
-    + intros _. destruct (request_main _ _ _ _ _ _ _ R M); congruence.
-    + destruct (user_reject s o p) eqn:U; [discriminate|]. intros O. specialize (L1 p O).
-      destruct (in_progress (ps s1 p)) eqn:I1; auto.
-      destruct (leave_main _ _ _ _ _ _ M p L1 I1); congruence.
-  - pose proof (B3_main _ _ _ _ _ _ LB B C2 M) as B1.
-    eapply B3_same; [exact P5|exact S5|]. apply KB. eapply B3_same; [exact P2|exact S2|exact B1].
-  - assert (L2 : L3 s2).
-    { intros q V. rewrite P2 in V. destruct (L3_main _ _ _ _ _ _ L3s M q V) as [A|A].
-      - eapply drain_hval_mono; eauto.
-      - eapply drain_sets; eauto. }
-    intros q V. rewrite P5 in V. eapply drain_hval_mono; eauto. apply (KL L2 q V).
-Qed.
-
-Lemma answers_step c s o s' ev cl :
-  step c s o = Some (s', ev, cl) -> forall q, (length (answers q ev) <= 1)%nat.
-Proof.
-  unfold step. destruct (main_handler c s o) as [[[s1 ev1] cl1]|] eqn:M; [|discriminate].
-  destruct (drain s1 ev1) as [[s2 dr] ks] eqn:D.
-  destruct (dropped_validations s2 dr) as [[[s3 ev3] cl3]|] eqn:E3; [|discriminate].
-  destruct (dropped_quiet _ _ _ _ _ E3) as [_ ->].
-  destruct (kill_tasks s3 ks) as [s4 ev4] eqn:K. cbn [app].
-  destruct (drain s4 ev4) as [[s5 x] y]. intros E; injection E as _ <- _. intros q.
-  destruct (kill_tasks_ledger _ _ _ _ K) as (_ & _ & _ & KA).
-  unfold answers in *. rewrite !filter_app, KA, app_nil_r.
-  assert (N0 : filter (is_answer q) (map UNotif (filter (hopen s2) (notifs_of s o))) = []).
-  { induction (filter (hopen s2) (notifs_of s o)); cbn; auto. }
-  rewrite N0, app_nil_r. eapply answers_main; eauto.
-Qed.
-
-Fixpoint ledger (c : cfg) (s : st) (owed : peer -> bool) (l : list op) : option (st * (peer -> bool)) :=
-  match l with
-  | [] => Some (s, owed)
-  | o :: t =>
-      match step c s o with
-      | Some (s1, ev, _) => ledger c s1 (owed_next s o ev owed) t
-      | None => None
-      end
-  end.
-
-(* the histories the ledger theorem is about: outside finding class 2 (no failed substream id is kept
-   pending) and no ValidateSubstream replaces an unanswered one at the handle *)
-Fixpoint ledger_env (c : cfg) (s : st) (l : list op) : bool :=
-  match l with
-  | [] => true
-  | o :: t =>
-      negb (class2_step s o) && match drops c s o with [] => true | _ => false end &&
-      match step c s o with
-      | Some (s1, _, _) => ledger_env c s1 t
-      | None => true
-      end
-  end.
-
-Lemma LInv_init : LInv init (fun _ => false).
-Proof. constructor; intros p; cbn; discriminate. Qed.
-
-Lemma ledger_inv c l : forall s owed s' owed',
-  SInv s -> LInv s owed -> ledger_env c s l = true -> ledger c s owed l = Some (s', owed') ->
-  SInv s' /\ LInv s' owed'.
-Proof.
-  induction l as [|o t IH]; intros s owed s' owed' I L E R; cbn in *.
-  - injection R as <- <-. auto.
-  - apply andb_true_iff in E. destruct E as [E E3]. apply andb_true_iff in E. destruct E as [E1 E2].
-    apply negb_true_iff in E1. destruct (drops c s o) eqn:D0; [|discriminate].
-    destruct (step_SInv c s o I) as (s1 & ev & cl & S & I1). rewrite S in *.
-    eapply IH; eauto. eapply step_ledger; eauto.
-Qed.
-
-Lemma open_answered c l s owed :
-  ledger_env c init l = true -> ledger c init (fun _ => false) l = Some (s, owed) ->
-  forall p, owed p = true -> in_progress (ps s p) = true /\ obligation s p = true.
-Proof.
-  intros E R p O. destruct (ledger_inv _ _ _ _ _ _ SInv_init LInv_init E R) as [[H B] [L1 LB L3s]].
-  split; auto. apply obligation_ok; auto.
-Qed.
-
-Definition w_drop : list op :=
-  [Established 0; CmdOpen 0; SubIn 0; HsIn 0 true; SubOut 0; HsOut 0 false;
-   CmdOpen 0; SubIn 0; HsIn 0 true; SubOut 0].
-Definition w_failed_sid2 : list op :=
-  [Established 0; SubIn 0; HsIn 0 true; Validate 0 true; OpenFail 0; CmdOpen 0].
-
-Example w_drop_check :
-  match ledger cfg_w0 init (fun _ => false) w_drop with
-  | Some (s, owed) => (owed 0, in_progress (ps s 0), obligation s 0)
-  | None => (false, false, false)
-  end = (true, false, false).
-Proof. vm_compute. reflexivity. Qed.
-Example w_failed_check :
-  match ledger cfg_w0 init (fun _ => false) w_failed_sid2 with
-  | Some (s, owed) => (owed 0, in_progress (ps s 0), obligation s 0)
-  | None => (false, false, false)
-  end = (true, true, false).
-Proof. vm_compute. reflexivity. Qed.
-
-(* ================================================================== the environment guards, explicitly *)
-(* An event is enabled when the TransportService / HandshakeService / NotificationHandle can deliver it:
-   connections are established and closed alternately per peer, substreams arrive on live connections,
-   substream results answer a request that is in flight, handshake events concern a substream the
-   handshake service holds, a validation result answers a request the handle holds, user commands
-   pass the handle's gate. A disabled event is not delivered (main_handler leaves the state alone). *)
-Definition enabled (s : st) (o : op) : bool :=
-  match o with
-  | Established p => negb (conn s p)
-  | ConnClosed p | SubIn p | KillChan p => conn s p
-  | SubOut p | OpenFail p => conn s p && match first_req p (spend s) with Some _ => true | None => false end
-  | HsIn p _ => hsI s p
-  | HsOut p _ => hsO s p
-  | Validate p _ => hval s p
-  | CmdOpen p => negb (hopen s p)
-  | CmdClose p => hopen s p
-  | _ => true
-  end.
-
-Lemma disabled_noop c s o : enabled s o = false -> main_handler c s o = ok s.
-Proof.
-  destruct o; cbn; try discriminate; intros E; rewrite ?E; auto.
-  - apply negb_false_iff in E. now rewrite E.
-  - destruct (conn s p); auto. cbn in E. destruct (first_req p (spend s)); [discriminate|auto].
-  - destruct (conn s p); auto. cbn in E. destruct (first_req p (spend s)); [discriminate|auto].
-  - apply negb_false_iff in E. now rewrite E.
-Qed.
-
-Fixpoint feasible (c : cfg) (s : st) (l : list op) : bool :=
-  match l with
-  | [] => true
-  | o :: t => enabled s o && match step c s o with Some (s1, _, _) => feasible c s1 t | None => true end
-  end.
 
-Definition w_twice : list op := [Established 0].
 
 (* ---- statements of Properties.v whose proofs are a few lines ---- *)
 Lemma C11_alternation_refuted_pf :
@@ -2493,7 +45,7 @@ Lemma C11_isolation_pf :
     reachable c s -> step c s o = Some (s', ev, cl) -> iso s s' (op_peer o) ev cl.
 Proof.
 
-  intros c s o s' ev cl R S. destruct (reachable_inv c s R) as [I T]. eapply step_iso; eauto.
+  intros c s o s' ev cl R S. destruct (reachable_inv3 c s R) as (I & T & K). eapply step_iso; eauto.
 Qed.
 
 Lemma C11_runs_are_reachable_pf :
@@ -2531,13 +83,49 @@ Proof.
   - pose proof w_failed_check as W. rewrite E in W. discriminate.
 Qed.
 
-Lemma C11_open_answered_needs_validation_answers_refuted_pf :
+Lemma C11_open_answered_class3_refuted_pf :
   exists (c : cfg) (ops : list op) (s : st) (owed : peer -> bool),
     ledger c init (fun _ => false) ops = Some (s, owed) /\ owed 0 = true /\ in_progress (ps s 0) = false.
 Proof.
 
-  exists cfg_w0, w_drop.
-  destruct (ledger cfg_w0 init (fun _ => false) w_drop) as [[s owed]|] eqn:E.
-  - exists s, owed. split; auto. pose proof w_drop_check as W. rewrite E in W. inversion W. auto.
-  - pose proof w_drop_check as W. rewrite E in W. discriminate.
+  exists cfg_w0, w_reject.
+  destruct (ledger cfg_w0 init (fun _ => false) w_reject) as [[s owed]|] eqn:E.
+  - exists s, owed. split; auto. pose proof w_reject_check as W. rewrite E in W. inversion W. auto.
+  - pose proof w_reject_check as W. rewrite E in W. discriminate.
 Qed.
+
+
+Lemma C11_stale_timer_cancels_newer_attempt_refuted_pf :
+  exists s1 s2 s3 ev cl,
+    exec cfg_wt init w_stale_pre = Some s1 /\ ps s1 0 = Some (Closed None) /\ timers s1 = [0] /\
+    exec cfg_wt s1 w_stale_post = Some s2 /\ waiting (ps s2 0) = true /\ timers s2 = [0; 0] /\
+    step cfg_wt s2 (Timer 0) = Some (s3, ev, cl) /\ ev = [UFail 0 E_REJECTED] /\ cl = [CForce 0] /\
+    timers s3 = [0].
+Proof.
+  pose proof stale_timer_cancels_newer_attempt as X.
+  destruct (exec cfg_wt init w_stale_pre) as [s1|] eqn:E1; [|discriminate X].
+  destruct (exec cfg_wt s1 w_stale_post) as [s2|] eqn:E2; [|discriminate X].
+  destruct (step cfg_wt s2 (Timer 0)) as [[[s3 ev] cl]|] eqn:E3; [|discriminate X].
+  injection X as X1 X2 X3 X4 X5 X6 X7 X8.
+  exists s1, s2, s3, ev, cl. subst. repeat split; auto.
+Qed.
+
+Lemma C11_lazy_no_stuck_pf : forall (c : cfg) (cap : nat) (gs : list lop), snd (lrun c cap linit gs) = true.
+Proof. intros. apply lrun_nostuck. apply SInv_init. Qed.
+
+Lemma C11_event_channel_no_loss_pf : forall (c : cfg) (cap : nat) (gs : list lop),
+  ltaken_run c cap linit gs ++ lq (lfinal c cap linit gs) = lemitted_run c cap linit gs.
+Proof. intros. apply (lrun_fifo c cap gs linit). apply SInv_init. Qed.
+
+Lemma C11_capacity_only_delays_pf : forall (c : cfg) (cap1 cap2 : nat) (gs : list lop),
+  never_blocked c cap1 linit gs = true -> never_blocked c cap2 linit gs = true ->
+  map (fun x => (lcore (fst (fst x)), snd (fst x))) (fst (lrun c cap1 linit gs)) =
+  map (fun x => (lcore (fst (fst x)), snd (fst x))) (fst (lrun c cap2 linit gs)) /\
+  snd (lrun c cap1 linit gs) = snd (lrun c cap2 linit gs).
+Proof. intros. apply lrun_cap; auto. Qed.
+
+(* a parked handler: capacity 1, the user does not poll: the OpenFailure of the timer arm waits behind
+   an unread ValidateSubstream, force_close is held back and released by the poll that makes room *)
+Definition w_parked : list lop :=
+  [LOp (Established 0); LOp (Established 1); LOp (SubIn 1); LOp (HsIn 1 true);
+   LOp (CmdOpen 0); LOp (SubOut 0); LOp (HsOut 0 true); LOp (Timer 0); LOp (SubIn 0); LPoll; LPoll].
